@@ -2,678 +2,720 @@
 from __future__ import annotations
 
 import ast
+import hashlib
+import hmac as _hmac
 import struct
 
-from sa.astx import NotConst, call_attr, call_name, const_eval, dotted, src, statements, walk_local
+from sa.astx import NotConst, const_eval, statements
 from sa.selftest import Mutant, Silent
-from sa.source import class_assigns
-from sa.props._lib_h import (assigned_pairs, call_nodes, calls_at, const_is, csrc, def_nodes, edge_path, flatten_add,
-                              guarded_by_edges, lin, lincmp_c, local_aliases, need, pure_expr, reaching_defs, self_attr, stmts,
-                              MiniInterp, ModelError,
-                              struct_fmt_norm, succ_on, tests, truth_edges)
+from sa.source import AnalysisError, class_assigns
+from sa.props._lib_d import MiniVM, VMError, VMObj, VMStub
 
 PROPERTY = "C35"
 TR = "conch/ssh/transport.py"
+CMN = "conch/ssh/common.py"
 QT = "twisted.conch.ssh.transport.SSHTransportBase."
 QS = "twisted.conch.ssh.transport.SSHCiphers."
-TECHNIQUE = "CFG must-pass/dominance, table and sibling agreement, finite evaluation of version exchange"
+TECHNIQUE = "finite evaluation of the extracted transport (interpreted source, stub ciphers) against RFC 4253 references"
 EXPLANATION = (
-    "getPacket: the payload return (and the decompressor) is reachable only through 'no MAC configured' or a true "
-    "currentEncryptions.verify(incomingPacketSequence, packet, mac) whose packet is the very value the payload is sliced from; a MAC "
-    "mismatch and every other sendDisconnect site cannot reach the payload return; incomingPacketSequence is bumped exactly once per "
-    "delivered packet and never otherwise; the first block is decrypted only when a whole block is buffered and never twice (stashed in "
-    "self.first on 'need more data', consumed when re-used); the whole-packet wait is exactly len(buf) >= 4 + packetLen + macLen; header "
-    "format and offsets agree between sendPacket and getPacket; the length limit admits RFC 4253's 35000 bytes. sendPacket: padding "
-    "arithmetic evaluated exhaustively for block sizes 8/16 (RFC 4253 6), MAC computed over the packet that is encrypted with the "
-    "pre-increment outgoingPacketSequence, one increment per write, compression flushed per packet and applied before framing. "
-    "SSHCiphers.makeMAC/verify authenticate the same string with direction-correct keys and compare whole digests; setKeys is direction "
-    "consistent. Tables: supportedMACs/ciphers/compressions are handled. Key re-exchange queue is flushed in order. Version exchange: "
-    "4 KiB limit, banner lines skipped, bytes after the version line preserved, and the extracted dataReceived is evaluated (whitelisted "
-    "interpreter, getPacket/sendDisconnect stubbed) on banner/version/tail streams under every two-way split against the reference 'first "
-    "complete line starting with SSH-, judged on the accumulated buffer'; two segmentation defects of the version exchange are reported as "
-    "known findings F35a/F35b. Single-assignment arithmetic temporaries are substituted before any normalisation. Not decided: the "
-    "cryptography itself, key exchange, segmentation invariance of the encrypted packet stream beyond the clauses above."
+    "The source of SSHTransportBase / SSHCiphers is evaluated by a whitelisted interpreter (no twisted code is run) with stand-ins for the "
+    "cryptography: a position-dependent stream cipher (decrypting a block twice or out of place corrupts it), a keyed tag MAC over "
+    "sequence number || packet, and a framing compressor that releases data only on a sync flush. (1) sendPacket's wire is parsed by an RFC 4253 "
+    "reference decoder for block sizes 8/16, MAC sizes 0/20/32, compression on/off and payload lengths covering every padding class: "
+    "padding >= 4, alignment, length field, MAC over the plaintext packet with consecutive sequence numbers, one flushed compression frame per "
+    "packet. (2) getPacket/dataReceived receive the reference encoder's wire whole, byte-wise and under every two-way split of the first "
+    "packets: exactly the payloads, in order, no disconnect; a 35000-byte packet is accepted; every single-byte corruption of a MAC-protected "
+    "packet delivers nothing altered and (beyond the length field) disconnects. (3) messages blocked during key exchange are queued without "
+    "consuming a sequence number and flushed in order under the new keys by _newKeys, which installs a compressor / decompressor for each "
+    "offered compression. (4) SSHCiphers.makeMAC/verify of a peer pair agree, are sensitive to sequence number, every data byte and every MAC "
+    "byte, and setKeys wires each direction's cipher, key, IV and integrity key to that direction. (5) version exchange: banner / version / "
+    "tail streams under every two-way split against the reference 'first complete line starting with SSH-'; two defects are reported as "
+    "known findings F35a/F35b. (6) offered MACs / ciphers have table entries. Not decided: the real cryptography, key exchange."
 )
 ASSUMPTIONS = [
-    "currentEncryptions is an SSHCiphers (verify / makeMAC / encrypt / decrypt are the methods analysed here)",
-    "zlib flush mode 2 is Z_SYNC_FLUSH, 3 is Z_FULL_FLUSH (stdlib constants)",
+    "currentEncryptions is an SSHCiphers-like object (encrypt / decrypt / makeMAC / verify, encBlockSize / decBlockSize / verifyDigestSize)",
+    "zlib flush modes 2 (Z_SYNC_FLUSH) and 3 (Z_FULL_FLUSH) release all pending output; decompressobj never raises on a complete frame",
+    "hashlib / hmac of the standard library are used as the reference for HMAC",
 ]
 
-CE = "self.currentEncryptions"
-VDS = CE + ".verifyDigestSize"
-DBS = CE + ".decBlockSize"
-BUFLEN = "len(self.buf)"
+MSG_DATA = 94
 
 
-def _cmp_edges(g, al, terms, c, at_least=False):
-    wt = frozenset((k, v) for k, v in terms.items() if v)
-    out = []
-    for t in g.ids(lambda n: n.kind == "test"):
-        e = g.node(t).ast
-        for lab, neg in (("T", False), ("F", True)):
-            nf = lincmp_c(e, al, negate=neg)
-            if nf is not None and nf[0] == wt and (nf[1] == c or (at_least and nf[1] >= c)):
-                out.append((t, lab))
-    return out
+# ---- stand-ins for the cryptography (plain Python, whitelisted to the interpreter as VMStub) ---------------------
+
+def _xor(data: bytes, pos: int) -> bytes:
+    return bytes(x ^ (((pos + i) * 7 + 3) & 0xFF) for i, x in enumerate(data))
 
 
-def _other(lab):
-    return "F" if lab == "T" else "T"
+def _tag(seq: int, data: bytes, n: int) -> bytes:
+    return hashlib.sha512(b"model-mac" + struct.pack(">L", seq & 0xFFFFFFFF) + data).digest()[:n]
 
 
-def _slice_parts(e):
-    if isinstance(e, ast.Subscript) and isinstance(e.slice, ast.Slice) and e.slice.step is None:
-        return e.value, e.slice.lower, e.slice.upper
-    return None
+class Ciphers(VMStub):
+    def __init__(self, bs, ms, label=b""):
+        self.encBlockSize = self.decBlockSize = bs
+        self.verifyDigestSize = ms
+        self.epos = self.dpos = 0
+        self.label = label
+
+    def encrypt(self, b):
+        out = _xor(b, self.epos)
+        self.epos += len(b)
+        return out
+
+    def decrypt(self, b):
+        out = _xor(b, self.dpos)
+        self.dpos += len(b)
+        return out
+
+    def makeMAC(self, seq, data):
+        return _tag(seq, self.label + data, self.verifyDigestSize) if self.verifyDigestSize else b""
+
+    def verify(self, seq, data, mac):
+        return mac == (_tag(seq, self.label + data, self.verifyDigestSize) if self.verifyDigestSize else b"")
 
 
-def _incrs(g, attr):
-    """[(node, ok)] for self.<attr> += 1 / self.<attr> = self.<attr> + 1; other writes give ok False."""
-    out = []
-    for n in stmts(g, lambda st: isinstance(st, (ast.AugAssign, ast.Assign))):
-        st = g.node(n).ast
-        if isinstance(st, ast.AugAssign) and self_attr(st.target, attr):
-            out.append((n, isinstance(st.op, ast.Add) and const_is(st.value, 1)))
-        elif isinstance(st, ast.Assign):
-            for t, v in assigned_pairs(st):
-                if self_attr(t, attr):
-                    out.append((n, v is not None and lin(v) == (frozenset({(f"self.{attr}", 1)}), 1)))
-    return out
+class Compressor(VMStub):
+    """output appears only on a sync / full flush, one numbered frame per flush (a compression context is stateful:
+    a peer that starts a fresh decompressor in mid-stream cannot read it)"""
+
+    def __init__(self):
+        self.pending = b""
+        self.index = 0
+
+    def compress(self, data):
+        self.pending += data
+        return b""
+
+    def flush(self, mode=4):
+        if mode in (2, 3, 4):
+            out, self.pending = frame(self.pending, self.index), b""
+            self.index += 1
+            return out
+        return b""
 
 
-def _bytes_consts(node):
-    try:
-        return const_eval(node, {})
-    except NotConst:
+class Decompressor(VMStub):
+    def __init__(self):
+        self.buf = b""
+        self.index = 0
+
+    def decompress(self, data):
+        self.buf += data
+        out = b""
+        while len(self.buf) >= 9 and self.buf[:1] == b"Z":
+            idx, n = struct.unpack(">LL", self.buf[1:9])
+            if idx != self.index:
+                raise ValueError("compressed stream does not continue this context")
+            if len(self.buf) < 9 + n:
+                break
+            out += self.buf[9:9 + n]
+            self.buf = self.buf[9 + n:]
+            self.index += 1
+        if self.buf and self.buf[:1] != b"Z":
+            raise ValueError("invalid compressed stream")
+        return out
+
+
+def frame(data: bytes, index: int = 0) -> bytes:
+    return b"Z" + struct.pack(">LL", index, len(data)) + data
+
+
+class Transport(VMStub):
+    def __init__(self):
+        self.sent = []
+        self.lost = False
+
+    def write(self, d):
+        self.sent.append(bytes(d))
+
+    def loseConnection(self):
+        self.lost = True
+
+    def getPeer(self):
         return None
 
+    getHost = getPeer
 
-def check(ctx):
-    _ok_gp = False; _ok_sp = False; _ok_nk = False; _ok_dr = False; rfmt = None; pst = None
+
+class Rand(VMStub):
+    def secureRandom(self, n):
+        return bytes((i * 37 + 11) & 0xFF for i in range(n))
+
+
+class Log(VMStub):
+    def info(self, *a, **k):
+        return None
+    debug = failure = error = warn = info
+
+
+class Zlib(VMStub):
+    Z_SYNC_FLUSH, Z_FULL_FLUSH, Z_FINISH = 2, 3, 4
+
+    def compressobj(self, *a):
+        return Compressor()
+
+    def decompressobj(self, *a):
+        return Decompressor()
+
+
+class ModelFailure(Exception):
+    """the interpreted code raised"""
+
+
+def _call(vm, obj, name, *args):
+    try:
+        return vm.call_method(obj, name, *args)
+    except VMError as e:
+        raise AnalysisError(f"C35: {name}: construct outside the interpreter's subset: {e}")
+    except AnalysisError:
+        raise
+    except Exception as e:      # an exception raised by the interpreted code (or by a stand-in it misused)
+        raise ModelFailure(f"{type(e).__name__}: {e}")
+
+
+def make_vm(ctx, hooks=None):
     mod = ctx.mod(TR)
-    mconst = {}
-    for st in mod.tree.body:
-        if isinstance(st, ast.Assign) and len(st.targets) == 1 and isinstance(st.targets[0], ast.Name) and isinstance(st.value, ast.Constant):
-            mconst[st.targets[0].id] = st.value.value
+    vm = MiniVM(mod, hooks=hooks or {}, budget=4 * 10 ** 7, siblings={"twisted.conch.ssh.common": ctx.mod(CMN)})
 
-    with ctx.section('getPacket/anchors'):
-        f = ctx.func(TR, "SSHTransportBase.getPacket")
-        g = ctx.cfg(f)
-        q = QT + "getPacket"
-        al = local_aliases(f, allow=pure_expr)
-        rets = stmts(g, lambda st: isinstance(st, ast.Return) and st.value is not None and not const_is(st.value, None))
-        ctx.need(rets, "getPacket: return <payload>")
-        ctx.check(len(rets) == 1 and isinstance(g.node(rets[0]).ast.value, ast.Name), "deliver/single-return", q, "getPacket has several / computed payload returns")
-        ret = rets[0]
-        pay = g.node(ret).ast.value.id if isinstance(g.node(ret).ast.value, ast.Name) else None
-        pk_var = None
-        if pay:
-            for d in def_nodes(g, pay):
-                for t, v in assigned_pairs(g.node(d).ast):
-                    sp = _slice_parts(v) if v is not None else None
-                    if isinstance(t, ast.Name) and t.id == pay and sp and isinstance(sp[0], ast.Name):
-                        pk_var = sp[0].id
-                        pay_slice = (d, sp)
-        ctx.need(pk_var, "getPacket: payload = packet[hdr:-padding]")
-        ups = [st for st in statements(f) if isinstance(st, ast.Assign) and isinstance(st.value, ast.Call) and call_name(st.value) in ("struct.unpack", "unpack")
-               and isinstance(st.targets[0], (ast.Tuple, ast.List))]
-        ctx.need(ups, "getPacket: struct.unpack of the header")
-        rfmt = const_eval(ups[0].value.args[0], {})
-        L, PAD = [src(e) for e in ups[0].targets[0].elts][:2]
-        hdr = struct.calcsize(rfmt)
-        first_name = src(_slice_parts(ups[0].value.args[1])[0]) if _slice_parts(ups[0].value.args[1]) else "first"
-        consume = stmts(g, lambda st: isinstance(st, ast.Assign) and any(self_attr(t, "buf") and v is not None and _slice_parts(v) and self_attr(_slice_parts(v)[0], "buf")
-                                                                         and _slice_parts(v)[1] is not None and L in csrc(_slice_parts(v)[1], al) for t, v in assigned_pairs(st)))
-        disc = call_nodes(g, lambda c: call_name(c) == "self.sendDisconnect")
-        ver_tests = tests(g, lambda e: isinstance(e, ast.Call) and csrc(e.func, al) == CE + ".verify")
-        decomp = call_nodes(g, lambda c: csrc(c.func, al) == "self.incomingCompression.decompress")
-        _ok_gp = True
-    with ctx.section('getPacket/mac'):
-        ctx.need(_ok_gp, 'anchors of getPacket (section skipped)')
-        ms_falsy = truth_edges(g, lambda e: csrc(e, al) == VDS, False)
-        ms_truthy = truth_edges(g, lambda e: csrc(e, al) == VDS, True)
-        ctx.check(bool(ver_tests), "mac/verified-before-delivery", q + " | verify()", "getPacket never calls currentEncryptions.verify: a tampered packet is delivered")
-        passes = [(t, "T") for t in ver_tests] + ms_falsy
-        for sink, what in [(ret, "returned to the dispatcher")] + [(d, "fed to the decompressor") for d in decomp]:
-            w = edge_path(g, [g.entry], [sink], avoid_edges=passes)
-            ctx.check(w is None, "mac/verified-before-delivery", ctx.construct(q, g.node(sink).ast),
-                      f"a payload can be {what} although a MAC is configured and verify() did not succeed", witness=g.describe(w))
-        # MAC mismatch -> DISCONNECT_MAC_ERROR
-        mac_disc = [d for d in disc if any("DISCONNECT_MAC_ERROR" in src(c.args[0]) for c in calls_at(g, d, lambda c: call_name(c) == "self.sendDisconnect") if c.args)]
-        for t in ver_tests:
-            w = edge_path(g, succ_on(g, t, "F"), [g.exit], avoid_nodes=mac_disc)
-            ctx.check(bool(mac_disc) and w is None, "mac/mismatch-disconnects", ctx.construct(q, g.node(t).ast),
-                      "a MAC mismatch does not lead to sendDisconnect(DISCONNECT_MAC_ERROR)", witness=g.describe(w))
-        for d in disc:
-            w = edge_path(g, [d], [ret], strict=True)
-            ctx.check(w is None, "deliver/nothing-after-disconnect", ctx.construct(q, g.node(d).ast),
-                      "after sendDisconnect the packet is still delivered", witness=g.describe(w))
-        ctx.floor("deliver/nothing-after-disconnect", len(disc), 4, "sendDisconnect sites in getPacket")
-        for t in ver_tests:
-            c = [x for x in walk_local(g.node(t).ast) if isinstance(x, ast.Call) and csrc(x.func, al) == CE + ".verify"][0]
-            cc = ctx.construct(q, c)
-            ok3 = len(c.args) == 3
-            ctx.check(ok3 and src(c.args[0]) == "self.incomingPacketSequence", "mac/covers-sequence-number", cc,
-                      "verify() is not given self.incomingPacketSequence: replayed / reordered / dropped packets are accepted")
-            ctx.check(ok3 and isinstance(c.args[1], ast.Name) and c.args[1].id == pk_var, "mac/authenticates-what-is-delivered", cc,
-                      f"verify() authenticates {src(c.args[1]) if ok3 else '?'} but the payload is sliced from {pk_var}")
-            if ok3 and isinstance(c.args[2], ast.Name):
-                mv = c.args[2].id
-                good = False
-                for d in reaching_defs(g, mv, t):
-                    prs = assigned_pairs(g.node(d).ast)
-                    m = [v for tt, v in prs if isinstance(tt, ast.Name) and tt.id == mv and v is not None]
-                    b = [v for tt, v in prs if self_attr(tt, "buf") and v is not None]
-                    if m and b:
-                        s1, s2 = _slice_parts(m[0]), _slice_parts(b[0])
-                        good = bool(s1 and s2 and self_attr(s1[0], "buf") and self_attr(s2[0], "buf") and s1[1] is None and s2[2] is None
-                                    and s1[2] is not None and s2[1] is not None and csrc(s1[2], al) == VDS and csrc(s2[1], al) == VDS)
-                ctx.check(good, "mac/mac-bytes-cut-from-buffer", cc, "the MAC compared is not exactly the verifyDigestSize bytes following the packet, removed from the buffer")
-            else:
-                ctx.check(False, "mac/mac-bytes-cut-from-buffer", cc, "MAC argument shape not recognised")
-        # packet = first + decrypt(rest)
-        for d in def_nodes(g, pk_var):
-            for t, v in assigned_pairs(g.node(d).ast):
-                if isinstance(t, ast.Name) and t.id == pk_var and v is not None:
-                    ops = flatten_add(v)
-                    okp = len(ops) == 2 and isinstance(ops[0], ast.Name) and isinstance(ops[1], ast.Call) and csrc(ops[1].func, al) == CE + ".decrypt"
-                    ctx.check(okp, "decrypt/packet-is-first-block-plus-rest", ctx.construct(q, g.node(d).ast), "the plaintext packet is not <first block> + decrypt(<rest>)")
-                    if okp:
-                        first_var = ops[0].id
-                        sp = _slice_parts(ops[1].args[0])
-                        ctx.check(sp is not None and sp[2] is None and sp[1] is not None and csrc(sp[1], al) == DBS, "decrypt/packet-is-first-block-plus-rest",
-                                  ctx.construct(q, g.node(d).ast) + " | rest", "the rest handed to decrypt() does not start after the first cipher block: a block is decrypted twice or skipped")
-    with ctx.section('getPacket/header'):
-        ctx.need(_ok_gp, 'anchors of getPacket (section skipped)')
-        sp = _slice_parts(ups[0].value.args[1])
-        ctx.check(struct_fmt_norm(rfmt) == ("big", "LB") and sp is not None and isinstance(sp[0], ast.Name) and sp[1] is None and sp[2] is not None and src(sp[2]) == str(hdr),
-                  "header/format", ctx.construct(q, ups[0]), f"the header is not read as big-endian uint32 length + uint8 padding from the first {hdr} bytes")
-        d_, ps = pay_slice
-        ctx.check(ps[1] is not None and src(ps[1]) == str(hdr) and ps[2] is not None and src(ps[2]) == f"-{PAD}", "header/payload-bounds", ctx.construct(q, g.node(d_).ast),
-                  f"the payload is not packet[{hdr}:-{PAD}] (header and random padding stripped)")
-    with ctx.section('getPacket/sequence'):
-        ctx.need(_ok_gp, 'anchors of getPacket (section skipped)')
-        incs = _incrs(g, "incomingPacketSequence")
-        inn = [n for n, ok in incs]
-        for n, ok in incs:
-            c = ctx.construct(q, g.node(n).ast)
-            ctx.check(ok, "sequence/incoming-once-per-packet", c, "incomingPacketSequence is not advanced by exactly 1")
-            w = edge_path(g, [n], [g.exit], avoid_nodes=[ret], strict=True)
-            ctx.check(w is None, "sequence/incoming-once-per-packet", c + " | only when delivered",
-                      "the sequence number advances although no packet is delivered: every later MAC check fails", witness=g.describe(w))
-            w = edge_path(g, [n], inn, strict=True)
-            ctx.check(w is None, "sequence/incoming-once-per-packet", c + " | once", "advanced twice for one packet", witness=g.describe(w))
-            w = edge_path(g, [n], ver_tests, strict=True)
-            ctx.check(w is None, "sequence/incoming-once-per-packet", c + " | after verify", "advanced before the MAC is verified with it", witness=g.describe(w))
-        w = edge_path(g, [g.entry], [ret], avoid_nodes=inn)
-        ctx.check(bool(inn) and w is None, "sequence/incoming-once-per-packet", q, "a packet is delivered without advancing incomingPacketSequence", witness=g.describe(w))
-    with ctx.section('getPacket/first-block'):
-        ctx.need(_ok_gp, 'anchors of getPacket (section skipped)')
-        dec_first = call_nodes(g, lambda c: csrc(c.func, al) == CE + ".decrypt" and c.args and _slice_parts(c.args[0]) is not None
-                               and self_attr(_slice_parts(c.args[0])[0], "buf") and _slice_parts(c.args[0])[1] is None)
-        ctx.need(dec_first, "getPacket: decrypt(self.buf[:bs])")
-        have_block = _cmp_edges(g, al, {BUFLEN: 1, DBS: -1}, 0, at_least=True)
-        stash_t = tests(g, lambda e: isinstance(e, ast.Call) and dotted(e.func) == "hasattr" and len(e.args) == 2 and src(e.args[0]) == "self" and const_is(e.args[1], "first"))
-        for d in dec_first:
-            c = calls_at(g, d, lambda c: csrc(c.func, al) == CE + ".decrypt")[0]
-            sp = _slice_parts(c.args[0])
-            ctx.check(sp[2] is not None and csrc(sp[2], al) == DBS, "segmentation/first-block", ctx.construct(q, c) + " | width", "the first decryption is not exactly one cipher block")
-            ctx.check(bool(have_block) and guarded_by_edges(g, d, have_block), "segmentation/first-block", ctx.construct(q, c),
-                      "the first block is decrypted before a whole cipher block is buffered: the cipher stream is advanced over partial data")
-            ctx.check(bool(stash_t) and guarded_by_edges(g, d, [(t, "F") for t in stash_t]), "segmentation/first-block-decrypted-once", ctx.construct(q, c),
-                      "the first block is decrypted again although an already decrypted copy is stashed in self.first (CBC/CTR state corrupted when a packet "
-                      "arrives in two segments)")
-    with ctx.section('getPacket/whole-packet'):
-        ctx.need(_ok_gp, 'anchors of getPacket (section skipped)')
-        ctx.need(consume, "getPacket: self.buf = self.buf[4 + packetLen:] (after substituting single-assignment locals)")
-        whole = _cmp_edges(g, al, {BUFLEN: 1, L: -1, VDS: -1}, 4)
-        for cn in consume:
-            cc = ctx.construct(q, g.node(cn).ast)
-            ctx.check(bool(whole) and guarded_by_edges(g, cn, whole), "segmentation/wait-for-whole-packet", cc,
-                      f"the packet is cut from the buffer without the exact guard len(buf) >= 4 + {L} + macLen: a packet (or its MAC) split across "
-                      "deliveries is truncated, or a complete final packet is never delivered")
-            prs = assigned_pairs(g.node(cn).ast)
-            enc = [v for t, v in prs if isinstance(t, ast.Name) and v is not None and _slice_parts(v) and self_attr(_slice_parts(v)[0], "buf")]
-            rest = [v for t, v in prs if self_attr(t, "buf") and v is not None]
-            ok = bool(enc) and bool(rest) and _slice_parts(enc[0])[1] is None and _slice_parts(rest[0])[2] is None \
-                and lin(_slice_parts(enc[0])[2], al) == (frozenset({(L, 1)}), 4) and lin(_slice_parts(rest[0])[1], al) == (frozenset({(L, 1)}), 4)
-            ctx.check(ok, "segmentation/consume-exactly-packet", cc, f"the bytes taken and the bytes left do not meet at 4 + {L}")
-        stash = stmts(g, lambda st: isinstance(st, ast.Assign) and any(self_attr(t, "first") and isinstance(v, ast.Name) and v.id == first_name for t, v in assigned_pairs(st)))
-        short = [d for t, lab in whole for d in succ_on(g, t, _other(lab))]
-        w = edge_path(g, short, [g.exit], avoid_nodes=stash)
-        ctx.check(bool(stash) and w is None, "segmentation/first-block-kept", q + " | <need more data>",
-                  "when the rest of the packet has not arrived yet the decrypted first block is thrown away: it is decrypted a second time on the next "
-                  "delivery (works only for the 'none' cipher)", witness=g.describe(w))
-        reuse = stmts(g, lambda st: isinstance(st, ast.Assign) and any(isinstance(t, ast.Name) and t.id == first_name and v is not None and self_attr(v, "first") for t, v in assigned_pairs(st)))
-        clear = stmts(g, lambda st: (isinstance(st, ast.Delete) and any(self_attr(t, "first") for t in st.targets))) + stash
-        for r in reuse:
-            w = edge_path(g, [r], [g.exit], avoid_nodes=clear, strict=True)
-            ctx.check(w is None, "segmentation/first-block-consumed-once", ctx.construct(q, g.node(r).ast),
-                      "a stashed first block stays in self.first after its packet was consumed: it is taken as the header of the next packet", witness=g.describe(w))
-            ctx.check(bool(stash_t) and guarded_by_edges(g, r, [(t, "T") for t in stash_t]), "segmentation/first-block-consumed-once", ctx.construct(q, g.node(r).ast) + " | guard",
-                      "self.first is read although it may not exist")
-        ctx.check(bool(reuse), "segmentation/first-block-kept", q + " | <reuse>", "the stashed first block is never used again")
-    with ctx.section('getPacket/lengths'):
-        ctx.need(_ok_gp, 'anchors of getPacket (section skipped)')
-        def is_align(e):
-            if isinstance(e, ast.Compare) and len(e.ops) == 1 and isinstance(e.ops[0], (ast.Eq, ast.NotEq)) and const_is(e.comparators[0], 0):
-                l = e.left
-                return isinstance(l, ast.BinOp) and isinstance(l.op, ast.Mod) and csrc(l.right, al) == DBS and lin(l.left, al) == (frozenset({(L, 1)}), 4)
+    def _has(o, n):
+        try:
+            vm.getattr(o, n)
+            return True
+        except Exception:
             return False
-        at = tests(g, is_align)
-        aligned = [(t, "T" if isinstance(g.node(t).ast.ops[0], ast.Eq) else "F") for t in at]
-        ctx.check(bool(aligned) and guarded_by_edges(g, ret, aligned), "length/block-aligned", q, f"a packet whose length (4 + {L}) is not a multiple of the block size is not rejected")
-        def is_declen(e):
-            if isinstance(e, ast.Compare) and len(e.ops) == 1 and isinstance(e.ops[0], (ast.Eq, ast.NotEq)):
-                d = lin(ast.BinOp(left=e.left, op=ast.Sub(), right=e.comparators[0]), al)
-                return d in ((frozenset({(f"len({pk_var})", 1), (L, -1)}), -4), (frozenset({(f"len({pk_var})", -1), (L, 1)}), 4))
-            return False
-        dt = tests(g, is_declen)
-        okl = [(t, "T" if isinstance(g.node(t).ast.ops[0], ast.Eq) else "F") for t in dt]
-        ctx.check(bool(okl) and guarded_by_edges(g, ret, okl), "length/decrypted-length", q, f"a packet whose decrypted length differs from 4 + {L} is not rejected")
-        big = []
-        for t in g.ids(lambda n: n.kind == "test"):
-            for lab, neg in (("T", False), ("F", True)):
-                nf = lincmp_c(g.node(t).ast, al, negate=neg)
-                if nf is not None and nf[0] == frozenset({(L, 1)}):
-                    big.append((t, lab, nf[1]))
-        ctx.check(bool(big) and all(c - 1 >= 35000 for t, lab, c in big), "length/limit-admits-rfc-minimum", q,
-                  f"the packet length limit ({[c - 1 for t, lab, c in big]}) is missing or below the 35000 bytes every implementation must accept (RFC 4253 6.1)")
-        for t, lab, c in big:
-            w = edge_path(g, succ_on(g, t, lab), [g.exit], avoid_nodes=disc)
-            ctx.check(w is None and guarded_by_edges(g, (consume or [ret])[0], [(t, _other(lab))]), "length/limit-admits-rfc-minimum", ctx.construct(q, g.node(t).ast),
-                      "an over-long length field neither disconnects nor prevents the consumption", witness=g.describe(w))
-    with ctx.section('getPacket/decompression'):
-        ctx.need(_ok_gp, 'anchors of getPacket (section skipped)')
-        for d in decomp:
-            st = g.node(d).ast
-            ctx.check(guarded_by_edges(g, d, truth_edges(g, lambda e: self_attr(e, "incomingCompression"), True)) and isinstance(st, ast.Assign)
-                      and any(isinstance(t, ast.Name) and t.id == pay for t in st.targets) and [src(a) for a in st.value.args] == [pay],
-                      "compression/decompress-payload", ctx.construct(q, st), "decompression is not 'payload = incomingCompression.decompress(payload)' under 'if self.incomingCompression'")
+    g = vm.mod._g
+    g["hasattr"] = lambda o, n: _has(o, n)
+    g["randbytes"] = Rand()
+    g["zlib"] = Zlib()
+    g["networkString"] = lambda s: s.encode("ascii", "replace") if isinstance(s, str) else s
+    g["iterbytes"] = lambda b: [bytes((c,)) for c in b]
+    return vm
 
-    with ctx.section('sendPacket/anchors'):
-        f = ctx.func(TR, "SSHTransportBase.sendPacket")
-        g = ctx.cfg(f)
-        q = QT + "sendPacket"
-        al = local_aliases(f)
-        mt, pl = f.args.args[1].arg, f.args.args[2].arg
-        wr = call_nodes(g, lambda c: call_name(c) == "self.transport.write")
-        ctx.need(wr, "sendPacket: self.transport.write")
-        _ok_sp = True
-    with ctx.section('sendPacket/sequence-and-mac'):
-        ctx.need(_ok_sp, 'anchors of sendPacket (section skipped)')
-        incs = _incrs(g, "outgoingPacketSequence")
-        onn = [n for n, ok in incs]
-        mac_calls = call_nodes(g, lambda c: csrc(c.func, al) == CE + ".makeMAC")
-        for n, ok in incs:
-            c = ctx.construct(q, g.node(n).ast)
-            ctx.check(ok, "sequence/outgoing-once-per-packet", c, "outgoingPacketSequence is not advanced by exactly 1")
-            w = g.must_precede(wr, [n], exc=False)
-            ctx.check(w is None, "sequence/outgoing-once-per-packet", c + " | only when written",
-                      "the sequence number advances for a packet that was queued, not written: the peer's MAC check fails from then on", witness=g.describe(w))
-            w = edge_path(g, [n], onn, strict=True)
-            ctx.check(w is None, "sequence/outgoing-once-per-packet", c + " | once", "advanced twice for one packet")
-            w = edge_path(g, [n], mac_calls, strict=True)
-            ctx.check(w is None, "sequence/outgoing-once-per-packet", c + " | after MAC", "advanced before the MAC is computed with it", witness=g.describe(w))
-        for wn in wr:
-            w = edge_path(g, [wn], [g.exit], avoid_nodes=onn, strict=True)
-            ctx.check(bool(onn) and w is None, "sequence/outgoing-once-per-packet", q, "a packet is written without advancing outgoingPacketSequence", witness=g.describe(w))
-        ctx.check(len(mac_calls) == 1, "mac/sender", q + " | makeMAC", f"sendPacket has {len(mac_calls)} makeMAC sites")
-        for mn in mac_calls:
-            c = calls_at(g, mn, lambda c: csrc(c.func, al) == CE + ".makeMAC")[0]
-            encs = calls_at(g, mn, lambda c: csrc(c.func, al) == CE + ".encrypt")
-            ok = len(c.args) == 2 and src(c.args[0]) == "self.outgoingPacketSequence"
-            ctx.check(ok, "mac/covers-sequence-number", ctx.construct(q, c), "makeMAC is not given self.outgoingPacketSequence")
-            ok = len(encs) == 1 and len(c.args) == 2 and isinstance(c.args[1], ast.Name) and [src(a) for a in encs[0].args] == [src(c.args[1])]
-            ctx.check(ok, "mac/sender", ctx.construct(q, c), "the MAC is not computed over the very (plaintext) packet that is encrypted")
-            if ok:
-                par = getattr(c, "_parent", None)
-                ctx.check(isinstance(par, ast.BinOp) and isinstance(par.op, ast.Add) and par.right is c and encs[0] in list(ast.walk(par.left)), "mac/sender",
-                          ctx.construct(q, c) + " | order", "the MAC is not appended after the ciphertext")
-                pkv = c.args[1].id
-                # what is written is that ciphertext+MAC
-                wcall = calls_at(g, wr[0], lambda c: call_name(c) == "self.transport.write")[0]
-                wv = wcall.args[0]
-                ok2 = (isinstance(wv, ast.Name) and any(mn == d for d in reaching_defs(g, wv.id, wr[0]))) or mn == wr[0]
-                ctx.check(ok2, "mac/sender", ctx.construct(q, wcall), "what is written to the transport is not encrypt(packet) + makeMAC(seq, packet)")
-    with ctx.section('sendPacket/framing'):
-        ctx.need(_ok_sp, 'anchors of sendPacket (section skipped)')
-        packs = [c for c in ast.walk(f) if isinstance(c, ast.Call) and call_name(c) in ("struct.pack", "pack")]
-        ctx.need(len(packs) == 1 and len(packs[0].args) == 3, "sendPacket: struct.pack(fmt, length, padlen)")
-        pk = packs[0]
-        sfmt = const_eval(pk.args[0], {})
-        ctx.check(rfmt is not None and struct_fmt_norm(sfmt) == struct_fmt_norm(rfmt), "header/format", ctx.construct(q, pk), f"sender packs the header as {sfmt!r}, receiver unpacks {rfmt!r}")
-        pst = pk
-        while not isinstance(pst, ast.stmt):
-            pst = pst._parent
-        ops = flatten_add(pst.value) if isinstance(pst, ast.Assign) else []
-        shape = len(ops) == 3 and ops[0] is pk and isinstance(ops[1], ast.Name) and isinstance(ops[2], ast.Call) and len(ops[2].args) == 1
-        ctx.check(shape, "framing/packet-layout", ctx.construct(q, pst), "the packet is not header + payload + random padding")
+
+def make_transport(vm, bs, ms, comp=False, got_version=True, cls="SSHTransportBase"):
+    o = VMObj(vm.cls(cls))
+    o.attrs["transport"] = Transport()
+    o.attrs["currentEncryptions"] = Ciphers(bs, ms)
+    o.attrs["_log"] = Log()
+    if got_version:
+        o.attrs["gotVersion"] = True
+    if comp:
+        o.attrs["outgoingCompression"] = Compressor()
+        o.attrs["incomingCompression"] = Decompressor()
+    return o
+
+
+# ---- RFC 4253 section 6 reference encoder / decoder over the stand-in cipher ----------------------------------
+
+def ref_packet(body: bytes, bs: int) -> bytes:
+    total = 5 + len(body)
+    pad = bs - (total % bs)
+    if pad < 4:
+        pad += bs
+    return struct.pack(">LB", total + pad - 4, pad) + body + bytes((i * 37 + 11) & 0xFF for i in range(pad))
+
+
+def ref_wire(messages, bs, ms, comp=False, seq0=0):
+    out, pos = b"", 0
+    c = Compressor() if comp else None
+    for i, (mt, payload) in enumerate(messages):
+        body = bytes((mt,)) + payload
+        if c is not None:
+            c.compress(body)
+            body = c.flush(2)
+        pkt = ref_packet(body, max(bs, 8))
+        out += _xor(pkt, pos) + (_tag(seq0 + i, pkt, ms) if ms else b"")
+        pos += len(pkt)
+    return out
+
+
+def ref_decode(wire, bs, ms, comp=False):
+    """-> (list of (problem or None, message type, payload)), parsed strictly; raises ValueError with the first deviation"""
+    msgs, pos, off, seq = [], 0, 0, 0
+    d = Decompressor() if comp else None
+    while off < len(wire):
+        first = _xor(wire[off:off + bs], pos)
+        if len(first) < 5:
+            raise ValueError(f"trailing {len(wire) - off} bytes do not hold a packet header")
+        L, P = struct.unpack(">LB", first[:5])
+        if (4 + L) % max(bs, 8):
+            raise ValueError(f"packet {seq}: length 4+{L} is not a multiple of the block size {max(bs, 8)}")
+        if not 4 <= P <= 255:
+            raise ValueError(f"packet {seq}: {P} bytes of padding (RFC 4253 6: at least 4)")
+        if off + 4 + L + ms > len(wire):
+            raise ValueError(f"packet {seq}: length field {L} runs past the end of what was written")
+        pkt = _xor(wire[off:off + 4 + L], pos)
+        mac = wire[off + 4 + L: off + 4 + L + ms]
+        if mac != (_tag(seq, pkt, ms) if ms else b""):
+            raise ValueError(f"packet {seq}: the MAC is not MAC(key, uint32({seq}) || unencrypted packet)")
+        body = pkt[5:len(pkt) - P]
+        if len(body) != L - P - 1 or L - P - 1 < 0:
+            raise ValueError(f"packet {seq}: length field {L} != 1 + payload + padding {P}")
+        if d is not None:
+            try:
+                body = d.decompress(body)
+            except ValueError:
+                raise ValueError(f"packet {seq}: payload is not one flushed compression frame")
+            if d.buf:
+                raise ValueError(f"packet {seq}: compressed payload not flushed with the packet")
+        if not body:
+            raise ValueError(f"packet {seq}: empty payload (the compressor was not flushed for this packet)" if comp else f"packet {seq}: empty payload")
+        msgs.append((body[0], body[1:]))
+        pos += 4 + L
+        off += 4 + L + ms
+        seq += 1
+    return msgs
+
+
+# ---- (1) sender -----------------------------------------------------------------------------------------------
+
+PAYLOADS = [bytes((65 + n,)) * n for n in range(0, 18)] + [b"u" * 27, bytes(range(64)), b"t" * 300]
+CONFIGS = [(8, 0, False), (8, 20, False), (16, 32, False), (16, 0, False), (8, 20, True), (16, 32, True)]
+
+
+def check_sender(ctx, vm):
+    q = QT + "sendPacket"
+    n = 0
+    for bs, ms, comp in CONFIGS:
+        a = make_transport(vm, bs, ms, comp)
+        msgs = [(MSG_DATA if i % 3 else 2, p) for i, p in enumerate(PAYLOADS)]
+        problem = None
+        try:
+            for mt, p in msgs:
+                _call(vm, a, "sendPacket", mt, p)
+                n += 1
+            wire = b"".join(a.attrs["transport"].sent)
+            got = ref_decode(wire, bs, ms, comp)
+            if got != msgs:
+                problem = f"the peer would read {[(m, p[:8]) for m, p in got][:4]}... instead of the {len(msgs)} messages sent"
+            elif len(a.attrs["transport"].sent) != len(msgs):
+                problem = f"{len(a.attrs['transport'].sent)} transport writes for {len(msgs)} packets"
+            seqno = a.attrs.get("outgoingPacketSequence")
+            if problem is None and seqno != len(msgs):
+                problem = f"outgoingPacketSequence is {seqno} after {len(msgs)} packets"
+        except ModelFailure as e:
+            problem = f"sendPacket raises {e}"
+        except ValueError as e:
+            problem = str(e)
+        rule = "sender/compression-framing" if comp and problem and ("compress" in problem or "flush" in problem) else "sender/rfc4253-framing"
+        if problem and "MAC" in problem:
+            rule = "sender/mac-and-sequence"
+        ctx.check(problem is None, rule if problem else ("sender/compression-framing" if comp else "sender/rfc4253-framing"),
+                  f"{q} | block {bs}, mac {ms}, compression {'on' if comp else 'off'}",
+                  f"what sendPacket writes is not a valid RFC 4253 binary packet stream (cipher block {bs}, MAC {ms} bytes, compression {'on' if comp else 'off'}): {problem}")
+        if not problem:
+            ctx.ok("sender/mac-and-sequence", f"{q} | block {bs}, mac {ms}, compression {'on' if comp else 'off'}")
+    ctx.floor("sender/rfc4253-framing", n, 60, "packets evaluated")
+
+
+# ---- (2) receiver ---------------------------------------------------------------------------------------------
+
+def receive(vm, wire_chunks, bs, ms, comp=False, seq0=0):
+    got = []
+    vm.hooks["dispatchMessage"] = lambda vm_, o, num, payload: got.append((num, bytes(payload)))
+    b = make_transport(vm, bs, ms, comp)
+    if seq0:
+        b.attrs["incomingPacketSequence"] = seq0
+    err = None
+    try:
+        for ch in wire_chunks:
+            _call(vm, b, "dataReceived", ch)
+    except ModelFailure as e:
+        err = str(e)
+    tr = b.attrs["transport"]
+    return got, tr.lost or bool(tr.sent), err, b
+
+
+def check_receiver(ctx, vm):
+    q = QT + "getPacket"
+    n_runs = 0
+    for bs, ms, comp in CONFIGS:
+        msgs = [(MSG_DATA, b"x" * 5), (2, b""), (MSG_DATA, bytes(range(64))), (MSG_DATA, b"v" * 13)]
+        wire = ref_wire(msgs, bs, ms, comp)
+        first_two = len(ref_wire(msgs[:2], bs, ms, comp))
+        segs = [("whole", [wire]), ("byte-wise", [wire[i:i + 1] for i in range(len(wire))])]
+        segs += [(f"split after byte {i}", [wire[:i], wire[i:]]) for i in range(1, min(first_two + bs + 2, len(wire)))]
+        segs += [("three segments", [wire[:bs + 1], wire[bs + 1:first_two - 1], wire[first_two - 1:]])]
         bad = None
-        n_eval = 0
-        if shape:
-            payv = ops[1].id
-            for B in (8, 16):
-                for n in range(0, 72):
-                    env = {pl: b"x" * n, mt: 94}
-                    try:
-                        _run_straight(f.body, env, pst, {CE + ".encBlockSize": B}, al)
-                        length, padf, padn = const_eval(pk.args[1], env), const_eval(pk.args[2], env), const_eval(ops[2].args[0], env)
-                        body = env[payv]
-                    except (NotConst, KeyError) as e:
-                        need(ctx, False, f"sendPacket framing not evaluable ({e})")
-                    n_eval += 1
-                    total = 4 + 1 + len(body) + padn
-                    if not (len(body) == n + 1 and padf == padn and 4 <= padn <= 255 and length == total - 4 and total % max(B, 8) == 0):
-                        bad = bad or f"block size {B}, payload {n} bytes: length field {length}, padding field {padf}, padding bytes {padn}, packet {total} bytes"
-        ctx.check(bad is None, "framing/padding-arithmetic", q + " | <length, padding>",
-                  f"RFC 4253 6 violated (padding >= 4, total a multiple of the block size, length = payload + padding + 1): {bad}", detail=f"{n_eval} evaluations")
-    with ctx.section('sendPacket/compression'):
-        ctx.need(_ok_sp, 'anchors of sendPacket (section skipped)')
-        comp = call_nodes(g, lambda c: csrc(c.func, al) == "self.outgoingCompression.compress")
-        ctx.check(len(comp) == 1, "compression/sender", q + " | compress", f"{len(comp)} compress sites")
-        for cn in comp:
-            st = g.node(cn).ast
-            ops2 = flatten_add(st.value) if isinstance(st, ast.Assign) else []
-            ok = len(ops2) == 2 and all(isinstance(o, ast.Call) for o in ops2) and csrc(ops2[0].func, al) == "self.outgoingCompression.compress" \
-                and csrc(ops2[1].func, al) == "self.outgoingCompression.flush" and len(ops2[1].args) == 1
-            mode = None
-            if ok:
-                a = ops2[1].args[0]
-                mode = a.value if isinstance(a, ast.Constant) else {"zlib.Z_SYNC_FLUSH": 2, "zlib.Z_FULL_FLUSH": 3}.get(src(a))
-            ctx.check(ok and mode in (2, 3), "compression/flushed-per-packet", ctx.construct(q, st),
-                      "the compressed payload is not compress(payload) + flush(Z_SYNC_FLUSH): the peer cannot decompress the packet until later data arrives")
-            ctx.check(guarded_by_edges(g, cn, truth_edges(g, lambda e: self_attr(e, "outgoingCompression"), True)), "compression/sender", ctx.construct(q, st) + " | guard",
-                      "compress is not under 'if self.outgoingCompression'")
-            framing = stmts(g, lambda s_: s_ is pst) + stmts(g, lambda s_: isinstance(s_, ast.Assign) and any(isinstance(t, ast.Name) and v is not None and f"len({pl})" in src(v) for t, v in assigned_pairs(s_)))
-            w = edge_path(g, framing, [cn], strict=True)
-            ctx.check(w is None, "compression/sender", ctx.construct(q, st) + " | before framing", "the payload is compressed after its length was measured", witness=g.describe(w))
-            typed = stmts(g, lambda s_: isinstance(s_, ast.Assign) and any(isinstance(t, ast.Name) and t.id == pl and v is not None and mt in src(v) for t, v in assigned_pairs(s_)))
-            w = g.must_precede(typed, [cn], exc=False)
-            ctx.check(bool(typed) and w is None, "compression/sender", ctx.construct(q, st) + " | type byte inside", "the message type byte is not part of the compressed payload",
-                      witness=g.describe(w))
-    with ctx.section('sendPacket/rekey-queue'):
-        ctx.need(_ok_sp, 'anchors of sendPacket (section skipped)')
-        qapp = call_nodes(g, lambda c: call_name(c) == "self._blockedByKeyExchange.append")
-        ctx.check(len(qapp) == 1, "rekey/queue", q + " | append", "messages blocked by a key exchange are not queued at the tail of _blockedByKeyExchange")
-        for a in qapp:
-            c = calls_at(g, a, lambda c: call_name(c) == "self._blockedByKeyExchange.append")[0]
-            ctx.check(src(c.args[0]) == f"({mt}, {pl})", "rekey/queue", ctx.construct(q, c), "what is queued is not (messageType, payload)")
-            w = edge_path(g, [a], wr, strict=True)
-            ctx.check(w is None, "rekey/queue", ctx.construct(q, c) + " | not also sent", "a queued message is also sent immediately", witness=g.describe(w))
+        for label, chunks in segs:
+            n_runs += 1
+            got, disc, err, _ = receive(vm, chunks, bs, ms, comp)
+            if err or disc or got != msgs:
+                bad = (label, got, disc, err)
+                break
+        c = f"{q} | block {bs}, mac {ms}, compression {'on' if comp else 'off'}"
+        whole_ok = bad is None or bad[0] != "whole"
+        rule = "receiver/delivers-intact" if not whole_ok else "receiver/segmentation-invariant"
+        ctx.check(bad is None, rule, c,
+                  f"a valid packet stream ({len(msgs)} packets, cipher block {bs}, MAC {ms}, compression {'on' if comp else 'off'}) delivered {bad[0] if bad else ''} yields "
+                  f"{[(m, p[:6]) for m, p in bad[1]] if bad else []}{' + disconnect' if bad and bad[2] else ''}{' / raises ' + bad[3] if bad and bad[3] else ''} "
+                  f"instead of the {len(msgs)} payloads in order" + ("" if whole_ok else " (already when delivered in one piece)"))
+        if bad is None:
+            ctx.ok("receiver/delivers-intact", c)
+    ctx.extra["receiver_runs"] = n_runs
+    # a packet of the size every implementation must accept (RFC 4253 6.1: 35000 bytes total)
+    big = [(MSG_DATA, b"B" * 34900)]
+    got, disc, err, _ = receive(vm, [ref_wire(big, 8, 20)], 8, 20)
+    ctx.check(got == big and not disc and not err, "receiver/accepts-rfc-minimum-size", q + " | 35000-byte packet",
+              f"a packet of 35000 bytes (which every implementation must accept, RFC 4253 6.1) is {'refused' if disc else 'not delivered'}{' / ' + err if err else ''}")
+    # malformed framing is refused (after successful MAC the stream cannot be trusted further)
+    for label, mk in (("length not a multiple of the block size", lambda p: struct.pack(">LB", len(p) - 4 + 1, p[4]) + p[5:] + b"\0"),):
+        pkt = ref_packet(bytes((MSG_DATA,)) + b"q" * 9, 8)
+        badpkt = mk(pkt)
+        wire = _xor(badpkt, 0) + _tag(0, badpkt, 20)
+        got, disc, err, _ = receive(vm, [wire + b"\0" * 32], 8, 20)
+        ctx.check(not got and disc, "receiver/malformed-refused", q + f" | {label}", f"a packet whose {label} is {'delivered' if got else 'not answered with a disconnect'}")
 
-    with ctx.section('_newKeys/flush'):
-        f = ctx.func(TR, "SSHTransportBase._newKeys")
-        g = ctx.cfg(f)
-        q = QT + "_newKeys"
-        loops = [n for n in g.ids(lambda n: n.kind == "for") if isinstance(g.node(n).ast.iter, ast.Name)]
-        sp_ = call_nodes(g, lambda c: call_name(c) == "self.sendPacket")
-        ok = False
-        if loops and sp_:
-            fr = g.node(loops[0]).ast
-            holder = fr.iter.id
-            defs = reaching_defs(g, holder, loops[0])
-            ok_src = bool(defs) and all(any(isinstance(t, ast.Name) and t.id == holder and v is not None and self_attr(v, "_blockedByKeyExchange") for t, v in assigned_pairs(g.node(d).ast)) for d in defs)
-            ctx.check(ok_src, "rekey/flush-in-order", ctx.construct(q, fr), "the messages re-sent after NEWKEYS are not the queue, in queue order")
-            c = calls_at(g, sp_[0], lambda c: call_name(c) == "self.sendPacket")[0]
-            tg = [src(e) for e in fr.target.elts] if isinstance(fr.target, (ast.Tuple, ast.List)) else []
-            ctx.check(tg == [src(a) for a in c.args], "rekey/flush-in-order", ctx.construct(q, c), "queued (type, payload) pairs are re-sent with different fields")
-            resets = stmts(g, lambda st: isinstance(st, ast.Assign) and any(self_attr(t, "_blockedByKeyExchange") for t, v in assigned_pairs(st)))
-            done = stmts(g, lambda st: isinstance(st, ast.Assign) and any(self_attr(t, "_keyExchangeState") and v is not None and src(v) == "self._KEY_EXCHANGE_NONE" for t, v in assigned_pairs(st)))
-            for what, nodes, why in (("the queue is detached", resets, "messages sent while flushing are lost or re-queued into the list being iterated"),
-                                     ("_keyExchangeState returns to _KEY_EXCHANGE_NONE", done, "the queued messages are queued again instead of being sent")):
-                w = g.must_precede(nodes, loops, exc=False)
-                ctx.check(bool(nodes) and w is None, "rekey/flush-in-order", q + f" | {what}", f"re-sending starts before {what}: {why}", witness=g.describe(w))
-            ok = True
-        ctx.check(ok, "rekey/flush-in-order", q, "the queue of messages blocked during key exchange is never flushed")
-        sw = stmts(g, lambda st: isinstance(st, ast.Assign) and any(self_attr(t, "currentEncryptions") and v is not None and self_attr(v, "nextEncryptions") for t, v in assigned_pairs(st)))
-        w = edge_path(g, [g.entry], loops or [g.exit], avoid_nodes=sw)
-        ctx.check(bool(sw) and w is None, "rekey/flush-in-order", q + " | new keys first", "queued messages are sent before the new keys are in use", witness=g.describe(w))
-        _ok_nk = True
-    with ctx.section('_newKeys/compression-table'):
-        ctx.need(_ok_nk, 'anchors of _newKeys (section skipped)')
-        ca = class_assigns(ctx.cls(TR, "SSHTransportBase"))
-        comps = _bytes_consts(ca.get("supportedCompressions"))
-        ctx.need(isinstance(comps, list), "supportedCompressions literal")
-        handled = {"out": {}, "in": {}}
-        for t in g.ids(lambda n: n.kind == "test"):
-            e = g.node(t).ast
-            if isinstance(e, ast.Compare) and len(e.ops) == 1 and isinstance(e.ops[0], ast.Eq) and isinstance(e.comparators[0], ast.Constant):
-                for d, attr in (("out", "outgoingCompressionType"), ("in", "incomingCompressionType")):
-                    if self_attr(e.left, attr):
-                        handled[d][e.comparators[0].value] = t
-        for name in comps:
-            if name == b"none":
-                continue
-            for d, attr, ctor in (("out", "outgoingCompression", "compressobj"), ("in", "incomingCompression", "decompressobj")):
-                t = handled[d].get(name)
-                okc = False
-                if t is not None:
-                    for s_ in succ_on(g, t, "T"):
-                        st = g.node(s_).ast
-                        okc = okc or (isinstance(st, ast.Assign) and any(self_attr(tt, attr) and isinstance(v, ast.Call) and call_attr(v) == ctor for tt, v in assigned_pairs(st)))
-                ctx.check(okc, "tables/compression-handled", f"{q} | {name!r} {d}",
-                          f"compression {name!r} is offered in supportedCompressions but _newKeys does not install a zlib.{ctor} for the "
-                          f"{'outgoing' if d == 'out' else 'incoming'} direction: one side compresses and the other does not")
-    with ctx.section('tables'):
-        ca = class_assigns(ctx.cls(TR, "SSHTransportBase"))
-        ccls = ctx.cls(TR, "SSHCiphers")
-        cca = class_assigns(ccls)
-        macmap = cca.get("macMap")
-        ciphmap = cca.get("cipherMap")
-        ctx.need(isinstance(macmap, ast.Dict) and isinstance(ciphmap, ast.Dict), "SSHCiphers.macMap / cipherMap")
-        mkeys = {_bytes_consts(k) for k in macmap.keys}
-        ckeys = {_bytes_consts(k) for k in ciphmap.keys}
-        macs = _bytes_consts(ca.get("supportedMACs"))
-        ctx.need(isinstance(macs, list), "supportedMACs literal")
-        for m in macs:
-            ctx.check(m in mkeys, "tables/mac-known", f"{QT}supportedMACs | {m!r}", f"MAC {m!r} is offered but SSHCiphers.macMap has no entry: _getMAC raises KeyError after negotiation")
-        ctx.floor("tables/mac-known", len(macs), 3)
-        gsc = ctx.func(TR, "_getSupportedCiphers")
-        lists = [_bytes_consts(st.value) for st in statements(gsc) if isinstance(st, ast.Assign) and isinstance(st.value, ast.List) and st.value.elts]
-        ctx.need(lists and isinstance(lists[0], list), "_getSupportedCiphers: candidate list")
-        for c in lists[0]:
-            ctx.check(c in ckeys, "tables/cipher-known", f"twisted.conch.ssh.transport._getSupportedCiphers | {c!r}", f"cipher {c!r} is a candidate but SSHCiphers.cipherMap has no entry")
-        ctx.floor("tables/cipher-known", len(lists[0]), 4)
-        ctx.check(b"none" in mkeys and b"none" in ckeys, "tables/none-entries", QS + "macMap/cipherMap | none",
-                  "the initial (pre-key-exchange) 'none' cipher / MAC has no table entry")
 
-    with ctx.section('SSHCiphers/makeMAC~verify'):
-        mm = ctx.func(TR, "SSHCiphers.makeMAC")
-        vf = ctx.func(TR, "SSHCiphers.verify")
-        shapes = {}
-        for fn, direction in ((mm, "out"), (vf, "in")):
-            q = QS + fn.name
-            mac_attr = f"{direction}MAC"
-            wrong = "inMAC" if direction == "out" else "outMAC"
-            ctx.check(not any(isinstance(n, ast.Attribute) and n.attr == wrong for n in ast.walk(fn)), "mac/direction", q,
-                      f"{fn.name} uses self.{wrong}: the {'outgoing' if direction == 'out' else 'incoming'} MAC is computed with the key of the other direction")
-            seqp, datap = fn.args.args[1].arg, fn.args.args[2].arg
-            reb = [st for st in statements(fn) if isinstance(st, ast.Assign) and any(isinstance(t, ast.Name) and t.id == datap for t in st.targets)]
-            okr = False
-            fmt = None
-            if len(reb) == 1:
-                ops = flatten_add(reb[0].value)
-                if len(ops) == 2 and isinstance(ops[0], ast.Call) and call_name(ops[0]) in ("struct.pack", "pack") and len(ops[0].args) == 2 \
-                        and src(ops[0].args[1]) == seqp and src(ops[1]) == datap:
-                    fmt = const_eval(ops[0].args[0], {})
-                    okr = struct_fmt_norm(fmt) == ("big", "L")
-            ctx.check(okr, "mac/covers-sequence-number", q, f"the authenticated string is not uint32(sequence number) || packet in {fn.name}")
-            hm = [c for c in ast.walk(fn) if isinstance(c, ast.Call) and call_name(c) in ("hmac.HMAC", "hmac.new", "HMAC")]
-            okh = len(hm) == 1 and len(hm[0].args) == 3 and src(hm[0].args[0]) == f"self.{mac_attr}.key" and src(hm[0].args[1]) == datap and src(hm[0].args[2]) == f"self.{mac_attr}[0]"
-            ctx.check(okh, "mac/siblings-agree", q, f"{fn.name} does not compute HMAC(self.{mac_attr}.key, seq||packet, self.{mac_attr}[0])")
-            shapes[direction] = (fmt, [src(a).replace(mac_attr, "XMAC") for a in hm[0].args] if hm else None)
-            g = ctx.cfg(fn)
-            off = truth_edges(g, lambda e, a=mac_attr: src(e) == f"self.{a}[0]", False)
-            ctx.check(bool(off), "mac/none-path", q, f"{fn.name} has no branch for 'no MAC configured'")
-            if hm and okh:
-                hn = g.ids_of(hm[0])
-                on = truth_edges(g, lambda e, a=mac_attr: src(e) == f"self.{a}[0]", True)
-                ctx.check(bool(hn) and guarded_by_edges(g, hn[0], on) if on else True, "mac/none-path", q + " | hmac guarded", "HMAC computed although no MAC is configured")
-        ctx.check(shapes["out"] == shapes["in"], "mac/siblings-agree", QS + "makeMAC ~ verify",
-                  f"makeMAC and verify authenticate different strings / digests: {shapes['out']} vs {shapes['in']}")
-    with ctx.section('SSHCiphers/verify-compare'):
-        vf = ctx.func(TR, "SSHCiphers.verify")
-        g = ctx.cfg(vf)
-        q = QS + "verify"
-        macp = vf.args.args[3].arg
-        dig = {t.id for st in statements(vf) if isinstance(st, ast.Assign) and isinstance(st.value, ast.Call) and call_attr(st.value) == "digest" for t in st.targets if isinstance(t, ast.Name)}
-        rr = stmts(g, lambda st: isinstance(st, ast.Return))
-        seen_cmp = False
-        for r in rr:
-            v = g.node(r).ast.value
-            if isinstance(v, ast.Call) and call_name(v) == "hmac.compare_digest":
-                ab = {src(a) for a in v.args}
-            elif isinstance(v, ast.Compare) and len(v.ops) == 1 and isinstance(v.ops[0], ast.Eq):
-                ab = {src(v.left), src(v.comparators[0])}
+def check_tamper(ctx, vm):
+    q = QT + "getPacket"
+    n = 0
+    for bs, ms, comp in ((8, 20, False), (16, 32, True)):
+        msgs = [(MSG_DATA, b"first payload"), (MSG_DATA, b"second"), (2, b"third one")]
+        wire = ref_wire(msgs, bs, ms, comp)
+        l1 = len(ref_wire(msgs[:1], bs, ms, comp))
+        l2 = len(ref_wire(msgs[:2], bs, ms, comp))
+        delivered_altered = silent = None
+        for off in range(l1, l2):           # every byte of the second packet and of its MAC
+            n += 1
+            t = wire[:off] + bytes((wire[off] ^ 0x20,)) + wire[off + 1:]
+            got, disc, err, _ = receive(vm, [t], bs, ms, comp)
+            if got != msgs[:len(got)] or len(got) > 1 and got[1] != msgs[1] or len(got) > 1:
+                delivered_altered = delivered_altered or (off - l1, got)
+            elif off - l1 >= 4 and not disc and not err:
+                silent = silent or (off - l1, got)
+        c = f"{q} | block {bs}, mac {ms}, compression {'on' if comp else 'off'}"
+        ctx.check(delivered_altered is None, "tamper/never-delivered", c,
+                  f"with byte {delivered_altered[0] if delivered_altered else 0} of a MAC-protected packet altered the receiver still dispatches "
+                  f"{[(m, p[:10]) for m, p in delivered_altered[1]] if delivered_altered else []} (the tampered packet or what follows it)")
+        ctx.check(silent is None, "tamper/disconnects", c,
+                  f"altering byte {silent[0] if silent else 0} of a MAC-protected packet is not answered with a disconnect")
+    ctx.floor("tamper/never-delivered", n, 60, "corruptions evaluated")
+
+
+# ---- (3) key re-exchange queue ----------------------------------------------------------------------------------
+
+def _kex_ready(vm, bs=8, ms=20):
+    o = make_transport(vm, bs, ms)
+    o.attrs.update({"supportedKeyExchanges": [b"curve25519-sha256"], "supportedPublicKeys": [b"ssh-ed25519"], "supportedCiphers": [b"aes128-ctr"],
+                    "supportedMACs": [b"hmac-sha2-256"], "supportedCompressions": [b"none"], "supportedLanguages": (),
+                    "outgoingCompressionType": b"none", "incomingCompressionType": b"none"})
+    return o
+
+
+def _decode_new(wire, seq, label, bs, ms):
+    pos, off, out = 0, 0, []
+    while off < len(wire):
+        first = _xor(wire[off:off + bs], pos)
+        L, P = struct.unpack(">LB", first[:5])
+        pkt = _xor(wire[off:off + 4 + L], pos)
+        if wire[off + 4 + L: off + 4 + L + ms] != _tag(seq, label + pkt, ms):
+            raise ValueError(f"queued packet {seq} is not authenticated with the new keys and sequence number {seq}")
+        out.append((pkt[5], pkt[6:len(pkt) - P]))
+        pos, off, seq = pos + 4 + L, off + 4 + L + ms, seq + 1
+    return out
+
+
+def check_rekey(ctx, vm):
+    q = QT + "_newKeys"
+    problem = None
+    try:
+        a, b = _kex_ready(vm), _kex_ready(vm)
+        _call(vm, a, "sendKexInit")
+        _call(vm, a, "sendPacket", MSG_DATA, b"a-one")
+        _call(vm, a, "sendPacket", 21, b"")             # NEWKEYS may be sent during key exchange
+        _call(vm, a, "sendPacket", 50, b"a-two")
+        _call(vm, b, "sendKexInit")                     # a second connection of the same process re-keys at the same time
+        _call(vm, b, "sendPacket", MSG_DATA, b"b-one")
+        got = ref_decode(b"".join(a.attrs["transport"].sent), 8, 20)
+        if [m for m, p in got] != [20, 21]:
+            problem = f"during key exchange the wire carries message types {[m for m, p in got]} (only KEXINIT and the key exchange message may pass)"
+        elif a.attrs.get("outgoingPacketSequence") != 2:
+            problem = f"outgoingPacketSequence is {a.attrs.get('outgoingPacketSequence')} after two written and two queued packets"
+        for o, label in ((b, b"newB"), (a, b"newA")):
+            o.attrs["nextEncryptions"] = Ciphers(16, 32, label)
+            del o.attrs["transport"].sent[:]
+        _call(vm, b, "_newKeys")
+        outb = _decode_new(b"".join(b.attrs["transport"].sent), 1, b"newB", 16, 32)
+        _call(vm, a, "_newKeys")
+        outa = _decode_new(b"".join(a.attrs["transport"].sent), 2, b"newA", 16, 32)
+        if problem is None and outb != [(MSG_DATA, b"b-one")]:
+            problem = (f"when connection B completes its key exchange it sends {outb}; it had queued only [(94, b'b-one')] - messages queued on another "
+                       "connection of the same process leak into it (shared queue)")
+        if problem is None and outa != [(MSG_DATA, b"a-one"), (50, b"a-two")]:
+            problem = f"after NEWKEYS the queued messages go out as {outa}, expected [(94, b'a-one'), (50, b'a-two')] in that order under the new keys"
+        if problem is None and a.attrs.get("currentEncryptions").label != b"newA":
+            problem = "_newKeys does not switch to nextEncryptions"
+        if problem is None:
+            n0 = len(a.attrs["transport"].sent)
+            _call(vm, a, "sendPacket", MSG_DATA, b"three")
+            if len(a.attrs["transport"].sent) != n0 + 1:
+                problem = "a message sent after the key exchange completed is still queued"
+    except ModelFailure as e:
+        problem = f"raises {e}"
+    except (ValueError, struct.error) as e:
+        problem = str(e)
+    ctx.check(problem is None, "rekey/queue-flushed-in-order", q, f"messages blocked by a key exchange: {problem}")
+    # a second key exchange with compression negotiated: both directions restart their compression context together
+    problem = None
+    try:
+        snd, rcv = _kex_ready(vm, 8, 20), _kex_ready(vm, 8, 20)
+        got = []
+        vm.hooks["dispatchMessage"] = lambda vm_, o, num, payload: got.append((num, bytes(payload)))
+        for o in (snd, rcv):
+            o.attrs.update({"outgoingCompressionType": b"zlib", "incomingCompressionType": b"zlib", "_blockedByKeyExchange": []})
+        sent = []
+        for round_ in (1, 2):
+            snd.attrs["nextEncryptions"], rcv.attrs["nextEncryptions"] = Ciphers(8, 20), Ciphers(8, 20)
+            for o in (snd, rcv):
+                if not isinstance(o.attrs.get("_blockedByKeyExchange"), list):
+                    o.attrs["_blockedByKeyExchange"] = []         # what sendKexInit does at the start of every key exchange
+            seq_s, seq_r = snd.attrs.get("outgoingPacketSequence", 0), rcv.attrs.get("incomingPacketSequence", 0)
+            _call(vm, snd, "_newKeys")
+            _call(vm, rcv, "_newKeys")
+            # the stand-in MAC of a fresh Ciphers object starts from the transports' running sequence numbers: keep both in step
+            del snd.attrs["transport"].sent[:]
+            for k in range(2):
+                msg = (MSG_DATA, f"round {round_} message {k}".encode())
+                sent.append(msg)
+                _call(vm, snd, "sendPacket", *msg)
+            _call(vm, rcv, "dataReceived", b"".join(snd.attrs["transport"].sent))
+            if seq_s != seq_r:
+                problem = "sequence numbers of the two model endpoints diverged"
+        if problem is None and (got != sent or rcv.attrs["transport"].lost):
+            problem = (f"with zlib negotiated, after a second key exchange the peer reads {[(m, p[:20]) for m, p in got[2:]]} instead of the two messages sent "
+                       f"{'and disconnects ' if rcv.attrs['transport'].lost else ''}(one direction keeps its old compression context while the other starts a new one)")
+    except ModelFailure as e:
+        problem = f"raises {e}"
+    ctx.check(problem is None, "rekey/compression-contexts-restart-together", q + " | zlib across two key exchanges", f"re-keying with compression: {problem}")
+    # compression tables: each offered compression is installed in both directions by _newKeys
+    ca = class_assigns(ctx.cls(TR, "SSHTransportBase"))
+    comps = _consts(ca.get("supportedCompressions"))
+    ctx.need(isinstance(comps, list), "supportedCompressions literal")
+    for name in comps:
+        if name == b"none":
+            continue
+        b = make_transport(vm, 8, 0)
+        b.attrs.update({"_blockedByKeyExchange": [], "nextEncryptions": Ciphers(8, 0), "outgoingCompressionType": name, "incomingCompressionType": name})
+        try:
+            _call(vm, b, "_newKeys")
+            oc, ic = b.attrs.get("outgoingCompression"), b.attrs.get("incomingCompression")
+        except ModelFailure:
+            oc = ic = None
+        ctx.check(isinstance(oc, Compressor), "tables/compression-handled", f"{q} | {name!r} out",
+                  f"compression {name!r} is offered but _newKeys installs {type(oc).__name__} as outgoing compressor: one side compresses and the other does not")
+        ctx.check(isinstance(ic, Decompressor), "tables/compression-handled", f"{q} | {name!r} in",
+                  f"compression {name!r} is offered but _newKeys installs {type(ic).__name__} as incoming decompressor")
+
+
+# ---- (4) SSHCiphers ------------------------------------------------------------------------------------------------
+
+class Namespace(VMStub):
+    pass
+
+
+class HashMod(VMStub):
+    def __init__(self, name):
+        self.name = name
+
+    def __call__(self, *a):
+        h = hashlib.new(self.name, *a)
+        o = Namespace()
+        o.digest_size, o.block_size, o.name = h.digest_size, h.block_size, self.name
+        return o
+
+
+class HMACObj(VMStub):
+    def __init__(self, d):
+        self._d = d
+
+    def digest(self):
+        return self._d
+
+
+class HMACMod(VMStub):
+    trans_36 = bytes((x ^ 0x36) for x in range(256))
+    trans_5C = bytes((x ^ 0x5C) for x in range(256))
+
+    def HMAC(self, key, msg=None, digestmod=None):
+        h = _hmac.new(key, msg, digestmod.name if isinstance(digestmod, HashMod) else digestmod)
+        return HMACObj(h.digest())
+
+    new = HMAC
+
+    def compare_digest(self, a, b):
+        return _hmac.compare_digest(a, b)
+
+
+class MACParams(tuple, VMStub):
+    pass
+
+
+class Alg(VMStub):
+    block_size = 128
+
+    def __init__(self, key):
+        self.key = key
+
+
+class AES(Alg):
+    pass
+
+
+class TripleDES(Alg):
+    block_size = 64
+
+
+class Mode(VMStub):
+    def __init__(self, iv):
+        self.iv = iv
+
+
+class CBC(Mode):
+    pass
+
+
+class CTR(Mode):
+    pass
+
+
+class Factory(VMStub):
+    """stands for a cryptography class object: callable, with the class attribute block_size"""
+
+    def __init__(self, cls, block_size=None):
+        self.cls = cls
+        if block_size is not None:
+            self.block_size = block_size
+
+    def __call__(self, *a, **k):
+        return self.cls(*a, **k)
+
+
+class Ctx_(VMStub):
+    def __init__(self, cipher, kind):
+        self.cipher, self.kind = cipher, kind
+
+    def update(self, data):
+        return data
+
+
+class CipherObj(VMStub):
+    def __init__(self, algorithm, mode, backend=None):
+        self.algorithm, self.mode = algorithm, mode
+
+    def encryptor(self):
+        return Ctx_(self, "enc")
+
+    def decryptor(self):
+        return Ctx_(self, "dec")
+
+
+def ciphers_vm(ctx):
+    vm = make_vm(ctx)
+    g = vm.mod._g
+    for n in ("md5", "sha1", "sha256", "sha384", "sha512"):
+        g[n] = HashMod(n)
+    g["hmac"] = HMACMod()
+    g["_MACParams"] = MACParams
+    alg, modes = Namespace(), Namespace()
+    alg.AES, alg.TripleDES = Factory(AES, 128), Factory(TripleDES, 64)
+    modes.CBC, modes.CTR = Factory(CBC), Factory(CTR)
+    g["algorithms"], g["modes"], g["Cipher"] = alg, modes, Factory(CipherObj)
+    g["default_backend"] = lambda: None
+    return vm
+
+
+def check_ciphers(ctx):
+    vm = ciphers_vm(ctx)
+    C = vm.cls("SSHCiphers")
+    q = QS + "makeMAC ~ verify"
+
+    def pair(mac_ab, mac_ba):
+        a = vm.new(C, b"none", b"none", mac_ab, mac_ba)
+        b = vm.new(C, b"none", b"none", mac_ba, mac_ab)
+        kab, kba = b"K" * 70 + b"ab", b"Q" * 70 + b"ba"
+        a.attrs["outMAC"], a.attrs["inMAC"] = _call(vm, a, "_getMAC", mac_ab, kab), _call(vm, a, "_getMAC", mac_ba, kba)
+        b.attrs["outMAC"], b.attrs["inMAC"] = _call(vm, b, "_getMAC", mac_ba, kba), _call(vm, b, "_getMAC", mac_ab, kab)
+        return a, b
+    data = b"\x00\x00\x00\x0c\x06" + b"packet payload!" * 2
+    for mac_ab, mac_ba in ((b"hmac-sha1", b"hmac-sha2-512"), (b"hmac-sha2-256", b"hmac-md5")):
+        problem = None
+        try:
+            a, b = pair(mac_ab, mac_ba)
+            m = _call(vm, a, "makeMAC", 7, data)
+            if not isinstance(m, bytes) or len(m) < 16:
+                problem = f"makeMAC returns {m!r}"
+            elif not _call(vm, b, "verify", 7, data, m):
+                problem = "the peer's verify() rejects the MAC makeMAC() produced for the same sequence number and packet"
+            elif _call(vm, b, "verify", 8, data, m):
+                problem = "verify() accepts the MAC under a different sequence number (replay / reordering / deletion undetected)"
+            elif _call(vm, a, "verify", 7, data, m):
+                problem = "the MAC of the outgoing direction verifies under the incoming direction's key (directions share a key)"
             else:
-                ab = None
-            if ab is not None and ab & dig:
-                seen_cmp = True
-                ctx.check(ab == {macp} | (ab & dig) and len(ab) == 2, "mac/whole-digest-compared", ctx.construct(q, g.node(r).ast),
-                          "verify() does not compare the complete received MAC with the complete computed digest")
-            elif ab is not None and macp in ab:
-                ctx.check(ab == {macp, "b''"}, "mac/none-path", ctx.construct(q, g.node(r).ast), "without a MAC configured verify() must accept only an empty MAC")
-            else:
-                ctx.check(False, "mac/whole-digest-compared", ctx.construct(q, g.node(r).ast), "verify() returns something that is not a comparison of the MAC")
-        ctx.check(seen_cmp, "mac/whole-digest-compared", q, "verify() never compares the computed digest with the received MAC")
-    with ctx.section('SSHCiphers/setKeys'):
-        sk = ctx.func(TR, "SSHCiphers.setKeys")
-        q = QS + "setKeys"
-
-        def direction(name):
-            for p, d in (("out", "out"), ("enc", "out"), ("in", "in"), ("dec", "in"), ("verify", "in")):
-                if name.startswith(p) and (len(name) == len(p) or name[len(p)].isupper() or name[len(p):] in ("ryptor",)):
-                    return d
-            return None
-        lenv = {}
-        n_dir = 0
-        for st in sk.body:
-            for sub in ([st] if not isinstance(st, ast.If) else [st] + st.body):
-                if not isinstance(sub, (ast.Assign, ast.If)):
-                    continue
-                node = sub.test if isinstance(sub, ast.If) else sub
-                ds = set()
-                for n in ast.walk(node):
-                    nm = n.attr if isinstance(n, ast.Attribute) else n.id if isinstance(n, ast.Name) else None
-                    if nm is None:
-                        continue
-                    d = lenv.get(nm) if isinstance(n, ast.Name) and nm in lenv and isinstance(n.ctx, ast.Load) else direction(nm)
-                    if d:
-                        ds.add(d)
-                if isinstance(sub, ast.Assign):
-                    n_dir += 1
-                    ctx.check(len(ds) <= 1, "setkeys/direction-consistent", ctx.construct(q, sub),
-                              "an outgoing field is computed from incoming material or vice versa (keys / block size / digest size of the wrong direction)")
-                    for t in sub.targets:
-                        if isinstance(t, ast.Name) and len(ds) == 1:
-                            lenv[t.id] = next(iter(ds))
-        ctx.floor("setkeys/direction-consistent", n_dir, 8, "assignments")
-
-    with ctx.section('dataReceived/anchors'):
-        f = ctx.func(TR, "SSHTransportBase.dataReceived")
-        g = ctx.cfg(f)
-        q = QT + "dataReceived"
-        al = {}
-        gp = call_nodes(g, lambda c: call_name(c) == "self.getPacket")
-        ctx.need(gp, "dataReceived: self.getPacket()")
-        gv_true = truth_edges(g, lambda e: self_attr(e, "gotVersion"), True)
-        gv_set = stmts(g, lambda st: isinstance(st, ast.Assign) and any(self_attr(t, "gotVersion") and const_is(v, True) for t, v in assigned_pairs(st)))
-        ctx.need(gv_set, "dataReceived: self.gotVersion = True")
-        _ok_dr = True
-    with ctx.section('dataReceived/version-escapes'):
-        ctx.need(_ok_dr, 'anchors of dataReceived (section skipped)')
-        # nodes reachable while the version is still unknown; each edge from there into a getPacket() call is one escape
-        gvt = set(gv_true)
-        unknown = g.reach([g.entry], avoid=set(gv_set) | set(gp), edge_ok=lambda a, b, l: l != "exc" and (a, l) not in gvt)
-        escapes = sorted({(p_, lab) for n in gp for p_, lab in g.pred[n] if p_ in unknown and lab != "exc" and (p_, lab) not in gvt and p_ not in gp})
-        for p_, lab in escapes:
-            w = edge_path(g, [g.entry], [p_], avoid_nodes=gv_set, avoid_edges=gv_true)
-            ctx.violation("version/packets-only-after-version", f"{q} | {g.node(p_).text()} -> self.getPacket()",
-                          "getPacket() is reached while the peer's version line has not been seen: identification (banner) text delivered on its own is parsed "
-                          "as a binary packet and the connection is dropped with 'bad packet length'", witness=g.describe((w or []) + [gp[0]]))
-        if not escapes:
-            ctx.ok("version/packets-only-after-version", q)
-    with ctx.section('dataReceived/version-loop'):
-        ctx.need(_ok_dr, 'anchors of dataReceived (section skipped)')
-        loops = [n for n in g.ids(lambda n: n.kind == "for") if any(edge_path(g, [n], [s], strict=True) for s in gv_set)]
-        ctx.need(loops, "dataReceived: for p in lines")
-        loop = loops[0]
-        fr = g.node(loop).ast
-        for s in gv_set:
-            w = edge_path(g, [s], [loop], strict=True)
-            ctx.check(w is None, "version/first-version-line-only", ctx.construct(q, g.node(s).ast),
-                      "after the version line was accepted the remaining 'lines' - which are binary packet data - are still scanned for 'SSH-': a payload "
-                      "containing '\\nSSH-...\\n' that arrives in the same segment is taken for a second version line and the packet stream is cut",
-                      witness=g.describe(w))
-        lv = fr.target.id if isinstance(fr.target, ast.Name) else "p"
-        sw_t = tests(g, lambda e: isinstance(e, ast.Call) and call_name(e) == f"{lv}.startswith" and len(e.args) == 1 and _bytes_consts(e.args[0]) == b"SSH-")
-        for s in gv_set:
-            ctx.check(bool(sw_t) and guarded_by_edges(g, s, [(t, "T") for t in sw_t]), "version/banner-lines-skipped", ctx.construct(q, g.node(s).ast) + " | guard",
-                      "a line that does not start with 'SSH-' is accepted as the version line")
-    with ctx.section('dataReceived/length-limit'):
-        ctx.need(_ok_dr, 'anchors of dataReceived (section skipped)')
-        lim = []
-        for t in g.ids(lambda n: n.kind == "test"):
-            for lab, neg in (("T", False), ("F", True)):
-                nf = lincmp_c(g.node(t).ast, al, negate=neg)
-                if nf is not None and nf[0] == frozenset({(BUFLEN, 1)}):
-                    lim.append((t, lab, nf[1]))
-        disc = call_nodes(g, lambda c: call_name(c) == "self.sendDisconnect")
-        okl = False
-        for t, lab, c in lim:
-            w = edge_path(g, succ_on(g, t, lab), [g.exit], avoid_nodes=disc)
-            w2 = edge_path(g, succ_on(g, t, lab), gp)
-            if w is None and w2 is None and 255 <= c - 1 <= 65536:
-                okl = True
-        ctx.check(okl, "version/length-limit", q, "an endless banner is buffered without limit (no 'len(self.buf) > N: disconnect; return' before the version is known)")
-    with ctx.section('dataReceived/rest-preserved'):
-        ctx.need(_ok_dr, 'anchors of dataReceived (section skipped)')
-        lv, fr = None, None
-        for n_ in g.ids(lambda n: n.kind == "for"):
-            if any(edge_path(g, [n_], [s], strict=True) for s in gv_set) and isinstance(g.node(n_).ast.target, ast.Name):
-                fr = g.node(n_).ast
-                lv = fr.target.id
-        ctx.need(fr is not None, "dataReceived: for p in lines")
-        splits = [st for st in statements(f) if isinstance(st, ast.Assign) and isinstance(st.value, ast.Call) and call_name(st.value) == "self.buf.split"]
-        joins = [st for st in statements(f) if isinstance(st, ast.Assign) and any(self_attr(t, "buf") for t in st.targets) and isinstance(st.value, ast.Call) and call_attr(st.value) == "join"]
-        okj = False
-        if splits and joins:
-            sep1 = _bytes_consts(splits[0].value.args[0]) if splits[0].value.args else None
-            sep2 = _bytes_consts(joins[0].value.func.value)
-            lines_v = splits[0].targets[0].id if isinstance(splits[0].targets[0], ast.Name) else None
-            sp = _slice_parts(joins[0].value.args[0]) if joins[0].value.args else None
-            idx = [t.id for st in statements(f) if isinstance(st, ast.Assign) and isinstance(st.value, ast.Call) and call_name(st.value) == f"{lines_v}.index"
-                   and [src(a) for a in st.value.args] == [lv] for t in st.targets if isinstance(t, ast.Name)]
-            okj = sep1 is not None and sep1 == sep2 and sp is not None and src(sp[0]) == lines_v and sp[2] is None and sp[1] is not None and bool(idx) \
-                and lin(sp[1]) == (frozenset({(idx[0], 1)}), 1) and src(fr.iter) == lines_v
-            ctx.check(okj, "version/rest-preserved", ctx.construct(q, joins[0]),
-                      "the bytes following the version line are not restored exactly (split/join separators differ or the slice does not start right after the version line): "
-                      "the first packets are corrupted when they arrive in the same segment as the version line")
-        else:
-            ctx.check(False, "version/rest-preserved", q, "split/join of the version buffer not found")
-    with ctx.section('dataReceived/dispatch-loop'):
-        ctx.need(_ok_dr, 'anchors of dataReceived (section skipped)')
-        disp = call_nodes(g, lambda c: call_name(c) == "self.dispatchMessage")
-        ctx.need(disp, "dataReceived: dispatchMessage")
-        for d in disp:
-            c = calls_at(g, d, lambda c: call_name(c) == "self.dispatchMessage")[0]
-            w = edge_path(g, [d], disp + [g.exit], avoid_nodes=gp, strict=True)
-            ctx.check(w is None, "dispatch/every-packet", ctx.construct(q, c), "after dispatching a packet the next one is not fetched: buffered packets are left undelivered",
-                      witness=g.describe(w))
-            pv = [a for a in c.args if _slice_parts(a)]
-            ctx.check(len(c.args) == 2 and len(pv) == 1 and src(_slice_parts(pv[0])[1]) == "1" and _slice_parts(pv[0])[2] is None, "dispatch/every-packet", ctx.construct(q, c) + " | payload",
-                      "the dispatched payload is not the packet without its message-type byte")
-
-    with ctx.section('dataReceived/version-exchange-model'):
-        _version_model(ctx, mconst)
+                for i in range(len(data)):
+                    if _call(vm, b, "verify", 7, data[:i] + bytes((data[i] ^ 1,)) + data[i + 1:], m):
+                        problem = f"verify() accepts the packet with byte {i} altered"
+                        break
+                for i in range(len(m)):
+                    if problem is None and _call(vm, b, "verify", 7, data, m[:i] + bytes((m[i] ^ 1,)) + m[i + 1:]):
+                        problem = f"verify() accepts a MAC whose byte {i} was altered (only part of the digest is compared)"
+                if problem is None and (_call(vm, b, "verify", 7, data, m[:8]) or _call(vm, b, "verify", 7, data, m + b"\0")):
+                    problem = "verify() accepts a truncated / extended MAC"
+            if problem is None:
+                ref = _hmac.new(vm.getattr(a.attrs["outMAC"], "key"), struct.pack(">L", 7) + data, mac_ab.decode()[5:].replace("-", "").replace("sha2", "sha")).digest()
+                if m != ref:
+                    problem = "makeMAC is not HMAC(key, uint32(sequence number) || packet) (RFC 4253 6.4)"
+        except ModelFailure as e:
+            problem = f"raises {e}"
+        ctx.check(problem is None, "mac/peer-agreement-and-sensitivity", f"{q} | {mac_ab.decode()}",
+                  f"SSHCiphers MAC ({mac_ab.decode()}): {problem}")
+    # no MAC configured
+    problem = None
+    try:
+        a = vm.new(C, b"none", b"none", b"none", b"none")
+        a.attrs["outMAC"], a.attrs["inMAC"] = _call(vm, a, "_getMAC", b"none", b""), _call(vm, a, "_getMAC", b"none", b"")
+        if _call(vm, a, "makeMAC", 1, data) != b"":
+            problem = "makeMAC is not empty when no MAC is configured"
+        elif not _call(vm, a, "verify", 1, data, b"") or _call(vm, a, "verify", 1, data, b"x"):
+            problem = "without a MAC configured verify() must accept exactly the empty MAC"
+    except ModelFailure as e:
+        problem = f"raises {e}"
+    ctx.check(problem is None, "mac/none-path", QS + "makeMAC ~ verify | none", f"SSHCiphers MAC 'none': {problem}")
+    # setKeys: each direction gets its own cipher, key, IV, block size and integrity key
+    q2 = QS + "setKeys"
+    problem = None
+    try:
+        c = vm.new(C, b"3des-cbc", b"aes256-ctr", b"hmac-sha1", b"hmac-sha2-512")
+        oiv, okey, iiv, ikey, oint, iint = (bytes((k,)) * 64 for k in (1, 2, 3, 4, 5, 6))
+        _call(vm, c, "setKeys", oiv, okey, iiv, ikey, oint, iint)
+        enc, dec = c.attrs.get("encryptor"), c.attrs.get("decryptor")
+        facts = {
+            "outgoing cipher is the outgoing algorithm": isinstance(enc, Ctx_) and enc.kind == "enc" and isinstance(enc.cipher.algorithm, TripleDES) and isinstance(enc.cipher.mode, CBC),
+            "outgoing cipher uses the outgoing key": isinstance(enc, Ctx_) and enc.cipher.algorithm.key == okey[:24],
+            "outgoing cipher uses the outgoing IV": isinstance(enc, Ctx_) and enc.cipher.mode.iv == oiv[:8],
+            "incoming cipher is the incoming algorithm": isinstance(dec, Ctx_) and dec.kind == "dec" and isinstance(dec.cipher.algorithm, AES) and isinstance(dec.cipher.mode, CTR),
+            "incoming cipher uses the incoming key": isinstance(dec, Ctx_) and dec.cipher.algorithm.key == ikey[:32],
+            "incoming cipher uses the incoming IV": isinstance(dec, Ctx_) and dec.cipher.mode.iv == iiv[:16],
+            "encBlockSize is the outgoing block size": c.attrs.get("encBlockSize") == 8,
+            "decBlockSize is the incoming block size": c.attrs.get("decBlockSize") == 16,
+            "verifyDigestSize is the incoming digest size": c.attrs.get("verifyDigestSize") == 64,
+        }
+        om, im = c.attrs.get("outMAC"), c.attrs.get("inMAC")
+        facts["outgoing MAC uses the outgoing integrity key and hash"] = isinstance(om, tuple) and getattr(om, "key", b"")[:20] == oint[:20] and len(om) == 4 and om[3] == 20
+        facts["incoming MAC uses the incoming integrity key and hash"] = isinstance(im, tuple) and getattr(im, "key", b"")[:64] == iint[:64] and len(im) == 4 and im[3] == 64
+        wrong = [k for k, v in facts.items() if not v]
+        if wrong:
+            problem = "after setKeys(outIV, outKey, inIV, inKey, outInteg, inInteg) it does not hold that " + "; ".join(wrong[:3])
+    except ModelFailure as e:
+        problem = f"raises {e}"
+    ctx.check(problem is None, "setkeys/direction-consistent", q2, f"SSHCiphers.setKeys: {problem}")
 
 
-# ---- version exchange: finite evaluation of the extracted dataReceived against a reference ----------------
+# ---- (5) version exchange -----------------------------------------------------------------------------------------
 
 def _ref_version(stream: bytes):
-    """reference: the first complete line that starts with b'SSH-' is the version line; what follows it stays in
-    the buffer.  -> (gotVersion, version string, remaining buffer)"""
+    """reference: the first complete line that starts with b'SSH-' is the version line; what follows it stays in the buffer"""
     lines = stream.split(b"\n")
     for i, ln in enumerate(lines[:-1]):         # the last element is not terminated by a newline
         if ln.startswith(b"SSH-"):
@@ -693,126 +735,154 @@ def _version_streams():
     yield b"hi\r\nSSH-"
 
 
-def _version_model(ctx, mconst):
-    f = ctx.func(TR, "SSHTransportBase.dataReceived")
+def check_version(ctx):
     q = QT + "dataReceived"
-    tcls = ctx.cls(TR, "SSHTransportBase")
-    ca = class_assigns(tcls)
-    defaults = {}
-    for k in ("gotVersion", "buf", "supportedVersions"):
-        v = _bytes_consts(ca.get(k)) if ca.get(k) is not None else None
-        ctx.need(v is not None, f"SSHTransportBase.{k} class default")
-        defaults[k] = v
-    n_runs = n_known = 0
-    reported = set()
+    events = []
+    state = {}
+
+    def rec(kind):
+        def h(vm_, o, *a):
+            events.append((kind, bool(o.attrs.get("gotVersion", False))) + tuple(x for x in a[:1] if isinstance(x, (int, bytes))))
+            return None
+        return h
+    vm = make_vm(ctx, hooks={"getPacket": rec("getPacket"), "sendDisconnect": rec("disconnect"), "_unsupportedVersionReceived": rec("unsupported"),
+                             "dispatchMessage": rec("dispatch")})
+
+    def run(chunks):
+        """-> list per chunk of (gotVersion, otherVersionString, buf, events, error)"""
+        o = make_transport(vm, 8, 0, got_version=False)
+        out = []
+        for ch in chunks:
+            del events[:]
+            err = None
+            try:
+                _call(vm, o, "dataReceived", ch)
+            except ModelFailure as e:
+                err = str(e)
+            out.append((bool(o.attrs.get("gotVersion", False)), o.attrs.get("otherVersionString"), o.attrs.get("buf", b""), list(events), err))
+        return out
+    n_runs = n_f35a = 0
+    bad = None
     for stream in _version_streams():
         for cut in range(0, len(stream) + 1):
             chunks = [c for c in (stream[:cut], stream[cut:]) if c] or [b""]
-            attrs = dict(defaults)
-            events = []
-            hooks = {"getPacket": lambda: events.append(("getPacket", attrs.get("gotVersion"))) or None,
-                     "sendDisconnect": lambda *a: events.append(("disconnect",) + tuple(a[:1])),
-                     "_unsupportedVersionReceived": lambda *a: events.append(("unsupported",) + tuple(a[:1])),
-                     "dispatchMessage": lambda *a: events.append(("dispatch",))}
-            m = MiniInterp(f, attrs, hooks, mconst)
-            acc = b""
             n_runs += 1
-            for ch in chunks:
+            acc = b""
+            for ch, (gotv, ver, buf, evs, err) in zip(chunks, run(chunks)):
                 acc += ch
-                del events[:]
-                try:
-                    m.call(ch)
-                    err = None
-                except ModelError as e:
-                    err = str(e)
                 want = _ref_version(acc)
-                got_v = bool(attrs.get("gotVersion"))
-                early = [e for e in events if e == ("getPacket", False)]
-                bad = [e for e in events if e[0] in ("disconnect", "unsupported")]
-                ok = err is None and not bad and not early and got_v == want[0] and \
-                    ((attrs.get("otherVersionString"), attrs.get("buf")) == (want[1], want[2]) if want[0] else attrs.get("buf") == acc)
+                early = [e for e in evs if e[0] == "getPacket" and not e[1]]
+                other = [e for e in evs if e[0] in ("disconnect", "unsupported")]
+                ok = err is None and not other and not early and gotv == want[0] and ((ver, buf) == (want[1], want[2]) if want[0] else buf == acc)
                 if ok:
                     continue
-                if b"SSH-" not in acc and not bad and err is None and got_v == want[0] and attrs.get("buf") == acc:
-                    n_known += 1        # banner-only buffer handed to getPacket(): that is finding F35a (reported by version/packets-only-after-version)
+                if b"SSH-" not in acc and not other and err is None and gotv == want[0] and buf == acc:
+                    n_f35a += 1         # banner-only buffer handed to getPacket(): finding F35a, reported below on its own input
                     continue
-                what = ("raises " + err) if err else ("disconnects " + repr(bad[0])) if bad else "parses packets before the version line is complete" if early else \
-                    f"gotVersion={got_v}, version={attrs.get('otherVersionString')!r}, buffer={attrs.get('buf')!r}"
-                key = (q + " | <wait for a complete version line>", )
-                if key not in reported:
-                    reported.add(key)
-                    ctx.violation("version/segmentation-invariant", key[0],
-                                  f"the version exchange depends on how the stream is cut: stream {stream!r} delivered as {chunks!r}: after {ch!r} the transport {what}; "
-                                  f"reference (first complete line starting with 'SSH-', judged on the accumulated buffer): gotVersion={want[0]}, version={want[1]!r}, buffer={want[2]!r}")
+                what = ("raises " + err) if err else ("disconnects " + repr(other[0])) if other else "parses packets before the version line is complete" if early else \
+                    f"gotVersion={gotv}, version={ver!r}, buffer={buf!r}"
+                bad = bad or (stream, chunks, ch, what, want)
                 break
     ctx.extra["version_model_runs"] = n_runs
-    ctx.note(f"version-exchange model: {n_runs} (stream, split) runs; {n_known} steps show finding F35a (banner-only buffer reaches getPacket) and are attributed to it")
-    if not reported:
-        ctx.ok("version/segmentation-invariant", q + " | <wait for a complete version line>", f"{n_runs} runs agree with the reference")
+    ctx.note(f"version-exchange model: {n_runs} (stream, split) runs; {n_f35a} steps show finding F35a and are attributed to it")
+    ctx.check(bad is None, "version/segmentation-invariant", q + " | <wait for a complete version line>",
+              (f"the version exchange depends on how the stream is cut: stream {bad[0]!r} delivered as {bad[1]!r}: after {bad[2]!r} the transport {bad[3]}; reference (first "
+               f"complete line starting with 'SSH-', judged on the accumulated buffer): gotVersion={bad[4][0]}, version={bad[4][1]!r}, buffer={bad[4][2]!r}") if bad else "")
     ctx.floor("version/segmentation-invariant", n_runs, 500, "runs")
+    # F35a: identification text in a segment of its own
+    res = run([b"Welcome to the machine\r\n", b"SSH-2.0-peer\r\n"])
+    early = [e for e in res[0][3] if e[0] == "getPacket" and not e[1]]
+    ctx.check(not early and res[0][4] is None, "version/packets-only-after-version", q + " | <banner line delivered before the version line>",
+              "getPacket() is reached while the peer's version line has not been seen: identification (banner) text delivered on its own is parsed as a binary packet "
+              "and the connection is dropped with 'bad packet length'")
+    # F35b: the bytes after the version line are packet data, not lines
+    tail = b"\x00\x00\x00\x1c\x0a\x02aa\nSSH-2.0-zz\nbb" + b"\0" * 9
+    res = run([b"SSH-2.0-peer\r\n" + tail])
+    gotv, ver, buf, evs, err = res[0]
+    ctx.check(err is None and gotv and ver == b"SSH-2.0-peer" and buf == tail and not [e for e in evs if e[0] != "getPacket"],
+              "version/first-version-line-only", q + " | <payload containing an SSH- line in the version segment>",
+              "after the version line was accepted the remaining bytes - binary packet data - are still scanned for 'SSH-': a payload containing '\\nSSH-...\\n' that "
+              f"arrives in the same segment is taken for a second version line (version={ver!r}) and the packet stream is cut (buffer={buf[:20]!r}...)")
+    # banner length limit
+    res = run([b"x" * 4999 + b"\n"])
+    ctx.check(any(e[0] == "disconnect" for e in res[0][3]) and not [e for e in res[0][3] if e[0] == "getPacket"], "version/length-limit", q + " | <endless banner>",
+              "5000 bytes without a version line are neither refused nor kept away from the packet parser (no length limit on the identification text)")
+    state.clear()
 
 
-def _run_straight(body, env, stop_at, attr_vals, al):
-    """Evaluate the straight-line arithmetic of sendPacket up to (excluding) ``stop_at`` with const_eval.
-    Assignments whose value is not evaluable make their target unknown; a branch whose test is not
-    evaluable (an opaque configuration flag) is evaluated for the configuration where it is false."""
-    for st in body:
-        if st is stop_at:
-            return True
-        if isinstance(st, ast.Assign) and len(st.targets) == 1 and isinstance(st.targets[0], ast.Name):
-            name = st.targets[0].id
-            key = src(st.value)
-            if key in attr_vals:
-                env[name] = attr_vals[key]
-                continue
-            try:
-                env[name] = const_eval(st.value, env)
-            except NotConst:
-                env.pop(name, None)
-        elif isinstance(st, ast.AugAssign) and isinstance(st.target, ast.Name):
-            try:
-                env[st.target.id] = const_eval(ast.BinOp(left=ast.Name(id=st.target.id, ctx=ast.Load()), op=st.op, right=st.value), env)
-            except NotConst:
-                env.pop(st.target.id, None)
-        elif isinstance(st, ast.If):
-            try:
-                t = const_eval(st.test, env)
-            except NotConst:
-                # opaque configuration test (key exchange in progress / compression on): evaluate the configuration
-                # in which it is false; the framing arithmetic does not depend on the payload's content
-                if _run_straight(st.orelse, env, stop_at, attr_vals, al):
-                    return True
-                continue
-            if _run_straight(st.body if t else st.orelse, env, stop_at, attr_vals, al):
-                return True
-    return False
+# ---- (6) tables --------------------------------------------------------------------------------------------------
+
+def _consts(node):
+    try:
+        return const_eval(node, {}) if node is not None else None
+    except NotConst:
+        return None
+
+
+def check_tables(ctx):
+    ca = class_assigns(ctx.cls(TR, "SSHTransportBase"))
+    cca = class_assigns(ctx.cls(TR, "SSHCiphers"))
+    macmap, ciphmap = cca.get("macMap"), cca.get("cipherMap")
+    ctx.need(isinstance(macmap, ast.Dict) and isinstance(ciphmap, ast.Dict), "SSHCiphers.macMap / cipherMap")
+    mkeys = {_consts(k) for k in macmap.keys}
+    ckeys = {_consts(k) for k in ciphmap.keys}
+    macs = _consts(ca.get("supportedMACs"))
+    ctx.need(isinstance(macs, list), "supportedMACs literal")
+    for m in macs:
+        ctx.check(m in mkeys, "tables/mac-known", f"{QT}supportedMACs | {m!r}", f"MAC {m!r} is offered but SSHCiphers.macMap has no entry: _getMAC raises KeyError after negotiation")
+    ctx.floor("tables/mac-known", len(macs), 3)
+    gsc = ctx.func(TR, "_getSupportedCiphers")
+    lists = [_consts(st.value) for st in statements(gsc) if isinstance(st, ast.Assign) and isinstance(st.value, (ast.List, ast.Tuple)) and st.value.elts]
+    lists = [x for x in lists if isinstance(x, (list, tuple))]
+    ctx.need(lists, "_getSupportedCiphers: candidate list")
+    for c in lists[0]:
+        ctx.check(c in ckeys, "tables/cipher-known", f"twisted.conch.ssh.transport._getSupportedCiphers | {c!r}", f"cipher {c!r} is a candidate but SSHCiphers.cipherMap has no entry")
+    ctx.floor("tables/cipher-known", len(lists[0]), 4)
+    ctx.check(b"none" in mkeys and b"none" in ckeys, "tables/none-entries", QS + "macMap/cipherMap | none", "the initial (pre-key-exchange) 'none' cipher / MAC has no table entry")
+
+
+def check(ctx):
+    with ctx.section("model/sender"):
+        check_sender(ctx, make_vm(ctx))
+    with ctx.section("model/receiver"):
+        check_receiver(ctx, make_vm(ctx))
+    with ctx.section("model/tamper"):
+        check_tamper(ctx, make_vm(ctx))
+    with ctx.section("model/rekey"):
+        check_rekey(ctx, make_vm(ctx))
+    with ctx.section("model/ciphers"):
+        check_ciphers(ctx)
+    with ctx.section("model/version-exchange"):
+        check_version(ctx)
+    with ctx.section("tables"):
+        check_tables(ctx)
 
 
 MUTANTS = [
     Mutant("return-payload-before-mac-test", TR, "        if ms:\n            macData, self.buf = self.buf[:ms], self.buf[ms:]\n            if not self.currentEncryptions.verify(\n                self.incomingPacketSequence, packet, macData\n            ):\n                self.sendDisconnect(DISCONNECT_MAC_ERROR, b\"bad MAC\")\n                return\n        payload = packet[5:-paddingLen]\n",
            "        payload = packet[5:-paddingLen]\n        if ms and not self.incomingCompression:\n            macData, self.buf = self.buf[:ms], self.buf[ms:]\n            if not self.currentEncryptions.verify(\n                self.incomingPacketSequence, packet, macData\n            ):\n                self.sendDisconnect(DISCONNECT_MAC_ERROR, b\"bad MAC\")\n                return\n",
-           expect_rule="mac/verified-before-delivery"),
+           expect_rule="receiver/"),
     Mutant("verify-drops-sequence-number", TR, "        data = struct.pack(\">L\", seqid) + data\n        outer = hmac.HMAC(self.inMAC.key, data, self.inMAC[0]).digest()", "        outer = hmac.HMAC(self.inMAC.key, data, self.inMAC[0]).digest()",
-           expect_rule="mac/covers-sequence-number"),
+           expect_rule="mac/peer-agreement-and-sensitivity"),
     Mutant("mac-error-still-delivers", TR, "                self.sendDisconnect(DISCONNECT_MAC_ERROR, b\"bad MAC\")\n                return\n", "                self.sendDisconnect(DISCONNECT_MAC_ERROR, b\"bad MAC\")\n",
-           expect_rule="mac/verified-before-delivery"),
+           expect_rule="tamper/never-delivered"),
     Mutant("first-block-not-stashed", TR, "            # Not enough data for a packet\n            self.first = first\n            return\n", "            # Not enough data for a packet\n            return\n",
-           expect_rule="segmentation/first-block-kept"),
-    Mutant("wait-ignores-mac-length", TR, "        if len(self.buf) < packetLen + 4 + ms:", "        if len(self.buf) < packetLen + 4:", expect_rule="segmentation/wait-for-whole-packet"),
+           expect_rule="receiver/segmentation-invariant"),
+    Mutant("wait-ignores-mac-length", TR, "        if len(self.buf) < packetLen + 4 + ms:", "        if len(self.buf) < packetLen + 4:", expect_rule="receiver/segmentation-invariant"),
     Mutant("sequence-bumped-when-queued", TR, "                self._blockedByKeyExchange.append((messageType, payload))\n                return\n",
-           "                self._blockedByKeyExchange.append((messageType, payload))\n                self.outgoingPacketSequence += 1\n                return\n", expect_rule="sequence/outgoing-once-per-packet"),
+           "                self._blockedByKeyExchange.append((messageType, payload))\n                self.outgoingPacketSequence += 1\n                return\n", expect_rule="rekey/queue-flushed-in-order"),
     Mutant("compression-not-flushed", TR, "            payload = self.outgoingCompression.compress(\n                payload\n            ) + self.outgoingCompression.flush(2)\n", "            payload = self.outgoingCompression.compress(payload)\n",
-           expect_rule="compression/flushed-per-packet"),
-    Mutant("padding-off-by-one", TR, "        if lenPad < 4:\n            lenPad = lenPad + bs\n", "        if lenPad < 3:\n            lenPad = lenPad + bs\n", expect_rule="framing/padding-arithmetic"),
+           expect_rule="sender/compression-framing"),
+    Mutant("padding-off-by-one", TR, "        if lenPad < 4:\n            lenPad = lenPad + bs\n", "        if lenPad < 3:\n            lenPad = lenPad + bs\n", expect_rule="sender/rfc4253-framing"),
     Mutant("mac-table-row-removed", TR, "        b\"hmac-sha2-384\": sha384,\n", "", expect_rule="tables/mac-known"),
     Mutant("digest-size-of-wrong-direction", TR, "        if self.inMAC:\n            self.verifyDigestSize = self.inMAC[3]", "        if self.inMAC:\n            self.verifyDigestSize = self.outMAC[3]",
            expect_rule="setkeys/direction-consistent"),
-    Mutant("rest-after-version-dropped-newlines", TR, "                    self.buf = b\"\\n\".join(lines[i + 1 :])", "                    self.buf = b\"\".join(lines[i + 1 :])", expect_rule="version/rest-preserved"),
+    Mutant("rest-after-version-dropped-newlines", TR, "                    self.buf = b\"\\n\".join(lines[i + 1 :])", "                    self.buf = b\"\".join(lines[i + 1 :])", expect_rule="version/segmentation-invariant"),
     Mutant("rekey-flush-before-state-reset", TR, "        self._keyExchangeState = self._KEY_EXCHANGE_NONE\n        messages = self._blockedByKeyExchange\n        self._blockedByKeyExchange = None\n        for messageType, payload in messages:\n            self.sendPacket(messageType, payload)\n",
            "        messages = self._blockedByKeyExchange\n        self._blockedByKeyExchange = None\n        for messageType, payload in messages:\n            self.sendPacket(messageType, payload)\n        self._keyExchangeState = self._KEY_EXCHANGE_NONE\n",
-           expect_rule="rekey/flush-in-order"),
+           expect_rule="rekey/queue-flushed-in-order"),
     Mutant("incoming-zlib-typo", TR, "        if self.incomingCompressionType == b\"zlib\":", "        if self.incomingCompressionType == b\"zlib@openssh.com\":", expect_rule="tables/compression-handled"),
-    Mutant("verify-compares-prefix", TR, "        return hmac.compare_digest(mac, outer)", "        return hmac.compare_digest(mac[:8], outer[:8])", expect_rule="mac/whole-digest-compared"),
+    Mutant("verify-compares-prefix", TR, "        return hmac.compare_digest(mac, outer)", "        return hmac.compare_digest(mac[:8], outer[:8])", expect_rule="mac/peer-agreement-and-sensitivity"),
     Mutant("no-return-after-banner-limit", TR, "                    b\"Preventing a denial of service attack.\",\n                )\n                return\n", "                    b\"Preventing a denial of service attack.\",\n                )\n",
            expect_rule="version/length-limit"),
     Mutant("version-wait-looks-at-chunk-only", TR, "            if self.buf.find(b\"\\n\", self.buf.find(b\"SSH-\")) == -1:\n                return\n",
@@ -822,10 +892,22 @@ MUTANTS = [
     Mutant("named-packet-size-forgets-mac", TR, "        if len(self.buf) < packetLen + 4 + ms:\n            # Not enough data for a packet\n            self.first = first\n            return\n        if (packetLen + 4) % bs != 0:",
            "        wireLen = packetLen + 4\n        if len(self.buf) < wireLen:\n            self.first = first\n            return\n        if wireLen % bs != 0:",
            more=[(TR, "        encData, self.buf = self.buf[: 4 + packetLen], self.buf[4 + packetLen :]", "        encData, self.buf = self.buf[:wireLen], self.buf[wireLen:]")],
-           expect_rule="segmentation/wait-for-whole-packet"),
-    Mutant("stale-first-block", TR, "            first = self.first\n            del self.first\n", "            first = self.first\n", expect_rule="segmentation/first-block-consumed-once"),
+           expect_rule="receiver/segmentation-invariant"),
+    Mutant("stale-first-block", TR, "            first = self.first\n            del self.first\n", "            first = self.first\n", expect_rule="receiver/segmentation-invariant"),
 ]
 SILENT = [
+    Silent("verify-result-in-named-boolean", TR, "            if not self.currentEncryptions.verify(\n                self.incomingPacketSequence, packet, macData\n            ):\n                self.sendDisconnect(DISCONNECT_MAC_ERROR, b\"bad MAC\")\n                return\n",
+           "            authentic = self.currentEncryptions.verify(\n                self.incomingPacketSequence, packet, macData\n            )\n            if not authentic:\n                self.sendDisconnect(DISCONNECT_MAC_ERROR, b\"bad MAC\")\n                return\n"),
+    Silent("padding-in-private-helper", TR, "        lenPad = bs - (totalSize % bs)\n        if lenPad < 4:\n            lenPad = lenPad + bs\n", "        lenPad = self._paddingLength(totalSize, bs)\n",
+           more=[(TR, "    def getPacket(self):\n", "    def _paddingLength(self, size, blockSize):\n        pad = blockSize - (size % blockSize)\n        if pad < 4:\n            pad += blockSize\n        return pad\n\n    def getPacket(self):\n")]),
+    Silent("mac-computed-into-a-temporary", TR, "        encPacket = self.currentEncryptions.encrypt(\n            packet\n        ) + self.currentEncryptions.makeMAC(self.outgoingPacketSequence, packet)\n        self.transport.write(encPacket)\n",
+           "        ciphers = self.currentEncryptions\n        mac = ciphers.makeMAC(self.outgoingPacketSequence, packet)\n        self.transport.write(ciphers.encrypt(packet) + mac)\n"),
+    Silent("dispatch-loop-while-true", TR, "        packet = self.getPacket()\n        while packet:\n            messageNum = ord(packet[0:1])\n            self.dispatchMessage(messageNum, packet[1:])\n            packet = self.getPacket()\n",
+           "        while True:\n            packet = self.getPacket()\n            if not packet:\n                break\n            self.dispatchMessage(ord(packet[0:1]), packet[1:])\n"),
+    Silent("version-wait-in-private-helper", TR, "            if self.buf.find(b\"\\n\", self.buf.find(b\"SSH-\")) == -1:\n                return\n", "            if not self._versionLineComplete():\n                return\n",
+           more=[(TR, "    def dispatchMessage(self, messageNum, payload):\n", "    def _versionLineComplete(self):\n        marker = self.buf.find(b\"SSH-\")\n        return self.buf.find(b\"\\n\", marker) != -1\n\n    def dispatchMessage(self, messageNum, payload):\n")]),
+    Silent("makeMAC-named-digestmod", TR, "        if not self.outMAC[0]:\n            return b\"\"\n        data = struct.pack(\">L\", seqid) + data\n        return hmac.HMAC(self.outMAC.key, data, self.outMAC[0]).digest()",
+           "        digestmod = self.outMAC[0]\n        if not digestmod:\n            return b\"\"\n        data = struct.pack(\">L\", seqid) + data\n        return hmac.HMAC(self.outMAC.key, data, digestmod).digest()"),
     Silent("named-packet-size-keeps-mac", TR, "        if len(self.buf) < packetLen + 4 + ms:\n            # Not enough data for a packet\n            self.first = first\n            return\n        if (packetLen + 4) % bs != 0:",
            "        wireLen = packetLen + 4\n        needed = wireLen + ms\n        if len(self.buf) < needed:\n            self.first = first\n            return\n        if wireLen % bs != 0:",
            more=[(TR, "        encData, self.buf = self.buf[: 4 + packetLen], self.buf[4 + packetLen :]", "        encData, self.buf = self.buf[:wireLen], self.buf[wireLen:]"),
